@@ -2,13 +2,18 @@
 //! The five REAL list-based whitelist contracts in a cw-multi-test App vs `LP.WlMembers` (Lean).
 //!
 //! Protocol: see lean/LaunchpadModel/Driver/C11.lean. Every observation enumerates the stored members by paging the
-//! `Members` query to exhaustion (immutable: raw storage dump), asks `HasMember` / `StageMemberInfo` / `Member` for
-//! every address of the case's universe, reads `Config`, `Stage(k)` and the bank balances of every funded account,
-//! the contract and the fair-burn pool.
+//! `Members` query to exhaustion AND by reading the contract's storage through the crate's own typed `state::` maps,
+//! asks `HasMember` / `StageMemberInfo` / `AllStageMemberInfo` / `Member` for every address of the case's probe list, reads
+//! `Config`, `Stage(k)`, `Stages` and the bank balances (native and one other denom) of every funded account, the contract
+//! and the fair-burn pool.
+//!
+//! Projection: the part of an answer before ` ## ` is what C11 constrains; burn/pool split, answers for invalid addresses,
+//! the out-of-range `StageMemberInfo` row, the active-stage index and the model's "adopted variant" note are DRIFT only.
 use std::collections::{BTreeMap, BTreeSet};
 
-use cosmwasm_std::{coins, Addr, Coin, Timestamp};
+use cosmwasm_std::{Addr, Coin, Order, Timestamp};
 use cw_multi_test::{BankSudo, Executor, SudoMsg};
+use cw_storage_plus::Map as CwMap;
 use lp_harness::boxes::{self, App};
 use lp_harness::world::{addr, addr_id, denom, ID_FAIRBURN_POOL};
 use lp_harness::*;
@@ -43,6 +48,8 @@ enum Kind {
     TFlex,
     Immutable,
 }
+const MUTABLE: [Kind; 4] = [Kind::Plain, Kind::Flex, Kind::Tiered, Kind::TFlex];
+
 impl Kind {
     fn parse(s: &str) -> Kind {
         match s {
@@ -98,6 +105,28 @@ impl Kind {
             Kind::Immutable => boxes::whitelist_immutable(),
         }
     }
+    /// storage namespace of the member map, taken from the crate's typed constant (a rename is followed automatically)
+    fn member_namespace(self) -> String {
+        let ns: &[u8] = match self {
+            Kind::Plain => sg_whitelist::state::WHITELIST.namespace(),
+            Kind::Flex => sg_whitelist_flex::state::WHITELIST.namespace(),
+            Kind::Tiered => sg_tiered_whitelist::state::WHITELIST_STAGES.namespace(),
+            Kind::TFlex => sg_tiered_whitelist_flex::state::WHITELIST_STAGES.namespace(),
+            Kind::Immutable => whitelist_immutable::state::WHITELIST.namespace(),
+        };
+        String::from_utf8_lossy(ns).to_string()
+    }
+    /// JSON schema of the crate's `ExecuteMsg` (run-time view of the message surface)
+    fn exec_schema(self) -> Value {
+        let v = match self {
+            Kind::Plain => serde_json::to_value(cosmwasm_schema::schema_for!(sg_whitelist::msg::ExecuteMsg)),
+            Kind::Flex => serde_json::to_value(cosmwasm_schema::schema_for!(sg_whitelist_flex::msg::ExecuteMsg)),
+            Kind::Tiered => serde_json::to_value(cosmwasm_schema::schema_for!(sg_tiered_whitelist::msg::ExecuteMsg)),
+            Kind::TFlex => serde_json::to_value(cosmwasm_schema::schema_for!(sg_tiered_whitelist_flex::msg::ExecuteMsg)),
+            Kind::Immutable => serde_json::to_value(cosmwasm_schema::schema_for!(whitelist_immutable::msg::ExecuteMsg)),
+        };
+        v.unwrap_or(Value::Null)
+    }
 }
 
 /// The property text: "100 STARS per started thousand" — literal, in ustars.
@@ -106,65 +135,105 @@ fn fee_for_limit(limit: u64) -> u128 {
     ((limit as u128 + 999) / 1000) * HUNDRED_STARS
 }
 
-// Compile-time tie to the message surface: a new / renamed execute message breaks this build.
-#[allow(dead_code)]
-fn surface_plain(m: &sg_whitelist::msg::ExecuteMsg) -> &'static str {
-    use sg_whitelist::msg::ExecuteMsg::*;
-    match m {
-        UpdateStartTime(_) => "env",
-        UpdateEndTime(_) => "env",
-        AddMembers(_) => "add",
-        RemoveMembers(_) => "rm",
-        UpdatePerAddressLimit(_) => "env",
-        IncreaseMemberLimit(_) => "inc",
-        UpdateAdmins { .. } => "env",
-        Freeze {} => "env",
+// ------------------------------------------------------------------------------------------------ message surface (run time)
+
+/// execute variants this harness knows how to drive, with the protocol op that sends them
+const KNOWN_VARIANTS: [(&str, &str); 11] = [
+    ("update_start_time", "env"),
+    ("update_end_time", "env"),
+    ("update_per_address_limit", "env"),
+    ("update_admins", "env"),
+    ("freeze", "env"),
+    ("update_stage_config", "env"),
+    ("add_members", "add"),
+    ("remove_members", "rm"),
+    ("add_stage", "addstage"),
+    ("remove_stage", "rmstage"),
+    ("increase_member_limit", "inc"),
+];
+
+/// variant names of an `ExecuteMsg` schema, each with its sub-schema
+fn schema_variants(schema: &Value) -> Vec<(String, Value)> {
+    let mut out = vec![];
+    for key in ["oneOf", "anyOf"] {
+        if let Some(arr) = schema[key].as_array() {
+            for v in arr {
+                if let Some(req) = v["required"].as_array() {
+                    if let Some(n) = req.first().and_then(|x| x.as_str()) {
+                        out.push((n.to_string(), v["properties"][n].clone()));
+                    }
+                } else if let Some(en) = v["enum"].as_array() {
+                    for n in en.iter().filter_map(|x| x.as_str()) {
+                        out.push((n.to_string(), Value::Null));
+                    }
+                }
+            }
+        }
+    }
+    out
+}
+
+/// a minimal, plausible argument for a schema node (used only for variants the harness has never heard of)
+fn sample(node: &Value, defs: &Value, depth: u32) -> Value {
+    if depth > 6 || node.is_null() {
+        return Value::Null;
+    }
+    if let Some(r) = node["$ref"].as_str() {
+        let n = r.rsplit('/').next().unwrap_or("");
+        if n.starts_with("Uint") || n.starts_with("Int") || n == "Timestamp" || n == "Decimal" {
+            return json!("1");
+        }
+        return sample(&defs[n], defs, depth + 1);
+    }
+    for key in ["allOf", "anyOf", "oneOf"] {
+        if let Some(arr) = node[key].as_array() {
+            if let Some(first) = arr.iter().find(|x| x["type"] != "null") {
+                return sample(first, defs, depth + 1);
+            }
+        }
+    }
+    if let Some(en) = node["enum"].as_array() {
+        return en.first().cloned().unwrap_or(Value::Null);
+    }
+    let ty = match &node["type"] {
+        Value::String(s) => s.clone(),
+        Value::Array(a) => a.iter().filter_map(|x| x.as_str()).find(|x| *x != "null").unwrap_or("null").to_string(),
+        _ => "object".to_string(),
+    };
+    match ty.as_str() {
+        "object" => {
+            let mut m = serde_json::Map::new();
+            if let Some(req) = node["required"].as_array() {
+                for r in req.iter().filter_map(|x| x.as_str()) {
+                    m.insert(r.to_string(), sample(&node["properties"][r], defs, depth + 1));
+                }
+            }
+            Value::Object(m)
+        }
+        "array" => json!([]),
+        "integer" | "number" => json!(1),
+        "boolean" => json!(false),
+        "string" => json!(name(10)),
+        _ => Value::Null,
     }
 }
-#[allow(dead_code)]
-fn surface_flex(m: &sg_whitelist_flex::msg::ExecuteMsg) -> &'static str {
-    use sg_whitelist_flex::msg::ExecuteMsg::*;
-    match m {
-        UpdateStartTime(_) => "env",
-        UpdateEndTime(_) => "env",
-        AddMembers(_) => "add",
-        RemoveMembers(_) => "rm",
-        IncreaseMemberLimit(_) => "inc",
-        UpdateAdmins { .. } => "env",
-        Freeze {} => "env",
+
+/// (known variant names present, unknown variants with a ready-made message)
+fn surface(kind: Kind) -> (Vec<String>, Vec<(String, Value)>) {
+    let schema = kind.exec_schema();
+    let defs = schema["definitions"].clone();
+    let mut known = vec![];
+    let mut unknown = vec![];
+    for (n, sub) in schema_variants(&schema) {
+        if KNOWN_VARIANTS.iter().any(|(k, _)| *k == n) {
+            known.push(n);
+        } else {
+            let arg = if sub.is_null() { Value::Null } else { sample(&sub, &defs, 0) };
+            let msg = if sub.is_null() { json!(n) } else { json!({ n.clone(): arg }) };
+            unknown.push((n, msg));
+        }
     }
-}
-#[allow(dead_code)]
-fn surface_tiered(m: &sg_tiered_whitelist::msg::ExecuteMsg) -> &'static str {
-    use sg_tiered_whitelist::msg::ExecuteMsg::*;
-    match m {
-        AddStage(_) => "addstage",
-        RemoveStage(_) => "rmstage",
-        AddMembers(_) => "add",
-        RemoveMembers(_) => "rm",
-        UpdateStageConfig(_) => "env",
-        IncreaseMemberLimit(_) => "inc",
-        UpdateAdmins { .. } => "env",
-        Freeze {} => "env",
-    }
-}
-#[allow(dead_code)]
-fn surface_tflex(m: &sg_tiered_whitelist_flex::msg::ExecuteMsg) -> &'static str {
-    use sg_tiered_whitelist_flex::msg::ExecuteMsg::*;
-    match m {
-        AddStage(_) => "addstage",
-        RemoveStage(_) => "rmstage",
-        AddMembers(_) => "add",
-        RemoveMembers(_) => "rm",
-        UpdateStageConfig(_) => "env",
-        IncreaseMemberLimit(_) => "inc",
-        UpdateAdmins { .. } => "env",
-        Freeze {} => "env",
-    }
-}
-#[allow(dead_code)]
-fn surface_immutable(m: &whitelist_immutable::msg::ExecuteMsg) -> &'static str {
-    match *m {}
+    (known, unknown)
 }
 
 // ------------------------------------------------------------------------------------------------ world
@@ -175,46 +244,68 @@ const START_NATIVE: u128 = 1_000_000_000_000_000;
 const START_OTHER: u128 = 1_000_000_000;
 
 type Map = BTreeMap<u64, u64>; // address id -> mint count (0 for the bool-valued kinds)
+type Pairs = Vec<(u64, u64)>;
 
 #[derive(Clone, Debug, Default)]
 struct Snap {
     num: u64,
     limit: u64,
-    /// members enumerated by paging `Members` (immutable: raw dump), one map per stage / one for flat kinds
-    paged: Vec<Map>,
-    /// members found in the raw storage dump
-    raw: Vec<Map>,
+    /// members enumerated by paging `Members`, in the order returned, duplicates preserved (one list per stage / one for flat kinds)
+    paged: Vec<Pairs>,
+    /// members read from storage through the crate's typed map (ground truth of what is stored), in key order
+    stored: Vec<Pairs>,
+    /// the typed read failed / was empty although paging found members: `stored` is a copy of `paged`
+    stored_fallback: bool,
     /// `Stage(k).member_count`
     counts: Vec<u64>,
+    /// `Stages{}.stages[k].member_count` (a separate expression in the Rust)
+    counts_list: Vec<u64>,
     /// stage windows (tiered) or [(start, end)] (flat)
     times: Vec<(u64, u64)>,
     admins: Vec<u64>,
+    /// `ActiveStageId` - 1
+    act: Option<u64>,
     has: Vec<Option<bool>>,
-    /// StageMemberInfo per stage 0..=nstages per universe address
+    /// StageMemberInfo per stage 0..=nstages per probe address
     sm: Vec<Vec<Option<bool>>>,
+    /// AllStageMemberInfo per probe address
+    asm: Vec<Option<Vec<bool>>>,
     mc: Vec<Option<u64>>,
     bal: u128,
+    bal2: u128,
     paid: u128,
+    paid2: u128,
     burned: u128,
     pool: u128,
-    other_denoms_moved: bool,
+}
+
+/// The harness's own bookkeeping, derived only from what it SENT and from whether the call succeeded.
+#[derive(Clone, Debug, Default)]
+struct Ghost {
+    maps: Vec<Map>,
+    limit: u64,
+    /// native funds attached to successful fee-bearing calls
+    fees_sent: u128,
+    /// funds attached to successful calls of messages that charge nothing (native / other denom)
+    tips: u128,
+    tips2: u128,
 }
 
 struct S {
     kind: Kind,
     uni: Vec<u64>,
+    literal: bool,
     app: App,
     wl: Option<Addr>,
     log: Vec<String>,
     // monitor bookkeeping (independent of the Lean model)
     prev: Option<Snap>,
     cur: Option<Snap>,
+    ghost: Option<Ghost>,
     last_line: String,
     last_ok: bool,
-    /// native funds attached to successful calls of messages that charge nothing
-    tips_ok: u128,
-    /// limit after instantiate / previous op, to check monotonicity
     now: u64,
+    fallbacks: u64,
 }
 
 fn fresh_app() -> App {
@@ -258,7 +349,7 @@ fn parse_lists(s: &str) -> Vec<Vec<(u128, u128)>> {
             if p == "-" || p.is_empty() {
                 vec![]
             } else {
-                p.split(',').map(|x| { let (a, b) = x.split_once(':').unwrap(); (a.parse().unwrap(), b.parse().unwrap()) }).collect()
+                p.split(',').filter_map(|x| { let (a, b) = x.split_once(':')?; Some((a.parse().ok()?, b.parse().ok()?)) }).collect()
             }
         })
         .collect()
@@ -266,8 +357,21 @@ fn parse_lists(s: &str) -> Vec<Vec<(u128, u128)>> {
 fn funds_of(pairs: &[(u128, u128)]) -> Vec<Coin> {
     pairs.iter().map(|(d, a)| Coin::new(*a, denom(*d as u64))).collect()
 }
-fn tip_of(t: u128) -> Vec<Coin> {
-    if t == 0 { vec![] } else { coins(t, NATIVE) }
+fn tip_of(t: u128, t2: u128) -> Vec<Coin> {
+    let mut v = vec![];
+    if t2 > 0 {
+        v.push(Coin::new(t2, denom(1)));
+    }
+    if t > 0 {
+        v.push(Coin::new(t, NATIVE));
+    }
+    v
+}
+/// what a member list stores when it is processed into `map`: plain kinds `true` (0), flex kinds the first mint count listed
+fn ghost_insert(kind: Kind, map: &mut Map, ms: &[(u128, u128)]) {
+    for (a, c) in ms {
+        map.entry(*a as u64).or_insert(if kind.is_flex() { *c as u64 } else { 0 });
+    }
 }
 
 impl S {
@@ -275,15 +379,17 @@ impl S {
         S {
             kind: Kind::Plain,
             uni: vec![],
+            literal: false,
             app: fresh_app(),
             wl: None,
             log: vec![],
             prev: None,
             cur: None,
+            ghost: None,
             last_line: String::new(),
             last_ok: false,
-            tips_ok: 0,
             now: 0,
+            fallbacks: 0,
         }
     }
     fn reset_world(&mut self) {
@@ -291,7 +397,7 @@ impl S {
         self.wl = None;
         self.prev = None;
         self.cur = None;
-        self.tips_ok = 0;
+        self.ghost = None;
     }
     fn set_now(&mut self, now: u64) {
         self.now = now;
@@ -307,6 +413,9 @@ impl S {
     fn bal(&self, who: &str, d: &str) -> u128 {
         self.app.wrap().query_balance(who, d).map(|c| c.amount.u128()).unwrap_or(0)
     }
+    fn valid(&self, a: u64) -> bool {
+        self.kind == Kind::Immutable || a < 90000
+    }
 
     fn n_stages(&self) -> usize {
         match self.q(json!({"stages": {}})) {
@@ -316,7 +425,7 @@ impl S {
     }
 
     /// one `Members` query; None = query error
-    fn page(&self, stage: u64, after: Option<u64>, limit: Option<u64>) -> Option<Vec<(u64, u64)>> {
+    fn page(&self, stage: u64, after: Option<u64>, limit: Option<u64>) -> Option<Pairs> {
         let mut m = json!({"start_after": after.map(name), "limit": limit});
         if self.kind.is_tiered() {
             m["stage_id"] = json!(stage);
@@ -333,8 +442,8 @@ impl S {
         )
     }
     /// walk all pages with page size `pg`, in the order the contract returns them
-    fn walk(&self, stage: u64, pg: u64) -> Vec<(u64, u64)> {
-        let mut out: Vec<(u64, u64)> = vec![];
+    fn walk(&self, stage: u64, pg: u64) -> Pairs {
+        let mut out: Pairs = vec![];
         let mut after = None;
         for _ in 0..100_000 {
             match self.page(stage, after, Some(pg)) {
@@ -349,45 +458,50 @@ impl S {
         out
     }
 
-    fn raw(&self) -> (Vec<Map>, BTreeMap<u64, u64>) {
-        let mut maps: BTreeMap<u64, Map> = BTreeMap::new();
-        let mut counts = BTreeMap::new();
-        let Some(wl) = &self.wl else { return (vec![], counts) };
-        for (k, v) in self.app.dump_wasm_raw(wl) {
-            let val = |v: &[u8]| -> u64 {
-                match serde_json::from_slice::<Value>(v) {
-                    Ok(Value::Number(n)) => n.as_u64().unwrap_or(u64::MAX),
-                    _ => 0,
-                }
-            };
-            if k.starts_with(b"\x00\x02wl") {
-                let a = String::from_utf8_lossy(&k[4..]).to_string();
-                maps.entry(0).or_default().insert(name_id(&a), val(&v));
-            } else if k.starts_with(b"\x00\x09wl_stages") && k.len() >= 17 {
-                let r = &k[11..];
-                let stage = u32::from_be_bytes([r[2], r[3], r[4], r[5]]) as u64;
-                let a = String::from_utf8_lossy(&r[6..]).to_string();
-                maps.entry(stage).or_default().insert(name_id(&a), val(&v));
-            } else if k.starts_with(b"\x00\x0cmember_count") && k.len() == 18 {
-                let stage = u32::from_be_bytes([k[14], k[15], k[16], k[17]]) as u64;
-                counts.insert(stage, val(&v));
+    /// What is stored, read through the crate's own map namespace with a value type that accepts anything.
+    /// None = the typed read failed (key layout changed): the caller falls back to the paged enumeration.
+    fn stored(&self, n_stages: usize) -> Option<Vec<Pairs>> {
+        let wl = self.wl.as_ref()?;
+        let ns = self.kind.member_namespace();
+        let val = |v: &Value| -> u64 {
+            match v {
+                Value::Number(n) => n.as_u64().unwrap_or(u64::MAX),
+                _ => 0,
             }
-        }
-        let n = if self.kind.is_tiered() { self.n_stages().max(maps.keys().next_back().map(|k| *k as usize + 1).unwrap_or(0)) } else { 1 };
-        ((0..n as u64).map(|i| maps.get(&i).cloned().unwrap_or_default()).collect(), counts)
+        };
+        let storage = self.app.contract_storage(wl);
+        let r = catch(|| -> Option<Vec<Pairs>> {
+            if self.kind.is_tiered() {
+                let m: CwMap<(u32, String), Value> = CwMap::new(&ns);
+                let mut maps: BTreeMap<u64, Pairs> = BTreeMap::new();
+                for e in m.range(&*storage, None, None, Order::Ascending) {
+                    let ((k, a), v) = e.ok()?;
+                    maps.entry(k as u64).or_default().push((name_id(&a), val(&v)));
+                }
+                let n = n_stages.max(maps.keys().next_back().map(|k| *k as usize + 1).unwrap_or(0));
+                Some((0..n as u64).map(|i| maps.get(&i).cloned().unwrap_or_default()).collect())
+            } else {
+                let m: CwMap<String, Value> = CwMap::new(&ns);
+                let mut l: Pairs = vec![];
+                for e in m.range(&*storage, None, None, Order::Ascending) {
+                    let (a, v) = e.ok()?;
+                    l.push((name_id(&a), val(&v)));
+                }
+                Some(vec![l])
+            }
+        });
+        r.ok().flatten()
     }
 
-    fn snapshot(&self, pg: u64) -> Option<Snap> {
+    fn snapshot(&mut self, pg: u64) -> Option<Snap> {
         let wl = self.wl.clone()?;
         let mut s = Snap::default();
-        let (raw, _raw_counts) = self.raw();
-        s.raw = raw;
+        let uni = self.uni.clone();
         match self.kind {
             Kind::Immutable => {
                 s.num = self.q(json!({"address_count": {}})).and_then(|v| v.as_u64()).unwrap_or(u64::MAX);
                 s.limit = 0;
-                s.paged = s.raw.clone();
-                s.has = self.uni.iter().map(|a| self.q(json!({"includes_address": {"address": name(*a)}})).and_then(|v| v.as_bool())).collect();
+                s.has = uni.iter().map(|a| self.q(json!({"includes_address": {"address": name(*a)}})).and_then(|v| v.as_bool())).collect();
             }
             _ => {
                 let cfg = self.q(json!({"config": {}})).unwrap_or(Value::Null);
@@ -401,25 +515,58 @@ impl S {
                     let arr = st["stages"].as_array().cloned().unwrap_or_default();
                     for (i, g) in arr.iter().enumerate() {
                         s.times.push((ts(&g["stage"]["start_time"]), ts(&g["stage"]["end_time"])));
+                        s.counts_list.push(g["member_count"].as_u64().unwrap_or(u64::MAX));
                         // per-stage query, independent of the list query
                         let one = self.q(json!({"stage": {"stage_id": i}})).unwrap_or(Value::Null);
                         s.counts.push(one["member_count"].as_u64().unwrap_or(u64::MAX));
-                        s.paged.push(self.walk(i as u64, pg).into_iter().collect());
+                        s.paged.push(self.walk(i as u64, pg));
                     }
                     for k in 0..=arr.len() {
                         s.sm.push(
-                            self.uni.iter().map(|a| self.q(json!({"stage_member_info": {"stage_id": k, "member": name(*a)}})).and_then(|v| v["is_member"].as_bool())).collect(),
+                            uni.iter().map(|a| self.q(json!({"stage_member_info": {"stage_id": k, "member": name(*a)}})).and_then(|v| v["is_member"].as_bool())).collect(),
                         );
                     }
+                    s.asm = uni
+                        .iter()
+                        .map(|a| {
+                            let v = self.q(json!({"all_stage_member_info": {"member": name(*a)}}))?;
+                            let arr = v["all_stage_member_info"].as_array()?;
+                            // answers are matched to stages by their own `stage_id` field when present, else by position
+                            let mut bits = vec![false; arr.len()];
+                            for (pos, e) in arr.iter().enumerate() {
+                                let idx = e["stage_id"].as_u64().map(|x| x as usize).unwrap_or(pos);
+                                if idx < bits.len() {
+                                    bits[idx] = e["is_member"].as_bool().unwrap_or(false);
+                                }
+                            }
+                            Some(bits)
+                        })
+                        .collect();
+                    s.act = self.q(json!({"active_stage_id": {}})).and_then(|v| v.as_u64()).and_then(|x| x.checked_sub(1));
                 } else {
                     s.times.push((ts(&cfg["start_time"]), ts(&cfg["end_time"])));
-                    s.paged.push(self.walk(0, pg).into_iter().collect());
+                    s.paged.push(self.walk(0, pg));
                 }
-                s.has = self.uni.iter().map(|a| self.q(json!({"has_member": {"member": name(*a)}})).and_then(|v| v["has_member"].as_bool())).collect();
+                s.has = uni.iter().map(|a| self.q(json!({"has_member": {"member": name(*a)}})).and_then(|v| v["has_member"].as_bool())).collect();
                 if self.kind.is_flex() {
-                    s.mc = self.uni.iter().map(|a| self.q(json!({"member": {"member": name(*a)}})).and_then(|v| v["mint_count"].as_u64())).collect();
+                    s.mc = uni.iter().map(|a| self.q(json!({"member": {"member": name(*a)}})).and_then(|v| v["mint_count"].as_u64())).collect();
                 }
             }
+        }
+        // ground truth of what is stored
+        let n_st = if self.kind.is_tiered() { s.paged.len() } else { 1 };
+        let paged_any = s.paged.iter().any(|p| !p.is_empty());
+        match self.stored(n_st) {
+            Some(st) if self.kind == Kind::Immutable || !(paged_any && st.iter().all(|m| m.is_empty())) => s.stored = st,
+            _ => {
+                // unreadable (or unrecognised) storage layout: never a failure by itself
+                s.stored = s.paged.clone();
+                s.stored_fallback = true;
+                self.fallbacks += 1;
+            }
+        }
+        if self.kind == Kind::Immutable {
+            s.paged = s.stored.clone();
         }
         s.bal = self.bal(wl.as_str(), NATIVE);
         s.pool = self.bal(&addr(ID_FAIRBURN_POOL), NATIVE);
@@ -428,44 +575,71 @@ impl S {
         s.paid = total0 - users;
         s.burned = total0 - users - s.bal - s.pool;
         let d1 = denom(1);
-        s.other_denoms_moved = FUNDED.iter().any(|id| self.bal(&addr(*id), &d1) != START_OTHER) || self.bal(wl.as_str(), &d1) != 0;
+        s.bal2 = self.bal(wl.as_str(), &d1);
+        let users2: u128 = FUNDED.iter().map(|id| self.bal(&addr(*id), &d1)).sum();
+        s.paid2 = START_OTHER * FUNDED.len() as u128 - users2;
         Some(s)
     }
 
-    /// walk order matters for the model comparison: render the paged enumeration in the order returned
-    fn render(&self, s: &Snap, pg: u64) -> String {
+    /// must mirror `renderObs` of the Lean driver field by field
+    fn render(&self, s: &Snap) -> String {
         let bit = |o: &Option<bool>| match o {
             Some(true) => '1',
             Some(false) => '0',
             None => 'e',
         };
-        let mem = if self.kind == Kind::Immutable {
-            fmt_pairs(&s.raw.first().map(|m| m.iter().map(|(a, c)| (*a, *c)).collect::<Vec<_>>()).unwrap_or_default())
-        } else if self.kind.is_tiered() {
-            if s.paged.is_empty() {
-                "-".to_string()
-            } else {
-                (0..s.paged.len()).map(|i| fmt_pairs(&self.walk(i as u64, pg))).collect::<Vec<_>>().join("|")
-            }
-        } else {
-            fmt_pairs(&self.walk(0, pg))
-        };
-        let cnt = if self.kind.is_tiered() { fmt_list(&s.counts) } else { "-".into() };
-        let has: String = s.has.iter().map(bit).collect();
-        let sm = if self.kind.is_tiered() { s.sm.iter().map(|r| r.iter().map(bit).collect::<String>()).collect::<Vec<_>>().join("|") } else { "-".into() };
-        let mc = if self.kind.is_flex() {
-            s.mc.iter().map(|c| c.map(|x| x.to_string()).unwrap_or_else(|| "x".into())).collect::<Vec<_>>().join(",")
+        let k = self.kind;
+        let nst = s.times.len();
+        let dot = |x: String| if x.is_empty() { ".".to_string() } else { x };
+        let mem = if s.paged.is_empty() { "-".to_string() } else { s.paged.iter().map(|p| fmt_pairs(p)).collect::<Vec<_>>().join("|") };
+        let cnt = if k.is_tiered() { fmt_list(&s.counts) } else { "-".into() };
+        let cntl = if k.is_tiered() { fmt_list(&s.counts_list) } else { "-".into() };
+        let has: String = self.uni.iter().zip(&s.has).map(|(a, b)| if self.valid(*a) { bit(b) } else { '-' }).collect();
+        let row = |r: &Vec<Option<bool>>, only_valid: bool| -> String { self.uni.iter().zip(r).filter(|(a, _)| !only_valid || self.valid(**a)).map(|(_, b)| bit(b)).collect() };
+        let sm = if k.is_tiered() && nst > 0 { (0..nst).map(|i| row(&s.sm[i], true)).collect::<Vec<_>>().join("|") } else { "-".into() };
+        let asm = if k.is_tiered() {
+            self.uni.iter().zip(&s.asm).map(|(a, r)| if !self.valid(*a) { "-".to_string() } else { match r { Some(bs) => dot(bs.iter().map(|b| if *b { '1' } else { '0' }).collect()), None => "e".into() } }).collect::<Vec<_>>().join(",")
         } else {
             "-".into()
         };
-        format!("n={} lim={} mem={} cnt={} has={} sm={} mc={} bal={} paid={} burned={} pool={}", s.num, s.limit, mem, cnt, has, sm, mc, s.bal, s.paid, s.burned, s.pool)
+        let mc_of = |c: &Option<u64>| c.map(|x| x.to_string()).unwrap_or_else(|| "x".into());
+        let mc = if k.is_flex() { self.uni.iter().zip(&s.mc).map(|(a, c)| if self.valid(*a) { mc_of(c) } else { "-".into() }).collect::<Vec<_>>().join(",") } else { "-".into() };
+        // outside the projection
+        let act = if k.is_tiered() { fmt_opt(&s.act) } else { "-".into() };
+        let invs: Vec<usize> = (0..self.uni.len()).filter(|i| !self.valid(self.uni[*i])).collect();
+        let inv = if invs.is_empty() {
+            "-".to_string()
+        } else {
+            invs.iter()
+                .map(|&i| {
+                    let mut x = String::new();
+                    x.push(bit(&s.has[i]));
+                    if k.is_tiered() {
+                        for st in 0..nst {
+                            x.push(bit(&s.sm[st][i]));
+                        }
+                        x.push(if s.asm[i].is_some() { 'a' } else { 'e' });
+                    }
+                    if k.is_flex() {
+                        x.push_str(&mc_of(&s.mc[i]));
+                    }
+                    x
+                })
+                .collect::<Vec<_>>()
+                .join(",")
+        };
+        let smx = if k.is_tiered() { dot(row(&s.sm[nst], false)) } else { "-".into() };
+        format!(
+            "n={} lim={} mem={} cnt={} cntl={} has={} sm={} asm={} mc={} bal={} bal2={} paid={} out={} ## burned={} pool={} act={} inv={} smx={} adopt=-",
+            s.num, s.limit, mem, cnt, cntl, has, sm, asm, mc, s.bal, s.bal2, s.paid, s.burned + s.pool, s.burned, s.pool, act, inv, smx
+        )
     }
 
     fn observe(&mut self, pg: u64) -> String {
         let snap = self.snapshot(pg);
         let out = match &snap {
             None => "none".to_string(),
-            Some(s) => self.render(s, pg),
+            Some(s) => self.render(s),
         };
         self.prev = self.cur.take();
         self.cur = snap;
@@ -488,15 +662,69 @@ impl S {
         self.log = log;
     }
 
-    /// `env` lines: append what the contract now reports for admins / times (environment witness for the model)
-    fn env_model_line(&self, line: &str) -> String {
-        match (&self.cur, self.kind) {
-            (Some(s), k) if k != Kind::Immutable => {
-                let (st, en) = if k.is_tiered() { (0, 0) } else { s.times[0] };
-                let times: Vec<(u64, u64)> = if k.is_tiered() { s.times.clone() } else { vec![] };
-                format!("{line} w_admins={} w_start={st} w_end={en} w_times={}", fmt_list(&s.admins), fmt_pairs(&times))
+    /// witness fields for the model: what happened and what the contract now reports about admins / schedule
+    fn witness(&self, ok: bool) -> String {
+        match &self.cur {
+            Some(s) => format!(" w_res={} w_adm={} w_t={} w_act={}", ok as u8, fmt_list(&s.admins), fmt_pairs(&s.times), fmt_opt(&s.act)),
+            None => format!(" w_res={} w_adm=- w_t=- w_act=-", ok as u8),
+        }
+    }
+
+    /// bookkeeping of what the successful messages listed (never looks at the contract)
+    fn update_ghost(&mut self, op: &str, line: &str) {
+        let kind = self.kind;
+        let (tip, tip2) = (kv_u128(line, "tip").unwrap_or(0), kv_u128(line, "tip2").unwrap_or(0));
+        if op == "inst" {
+            let mut g = Ghost { limit: kv_u64(line, "limit").unwrap_or(0), ..Default::default() };
+            let funds = kv_pairs(line, "funds").unwrap_or_default();
+            g.fees_sent = funds.iter().filter(|(d, _)| *d == 0).map(|(_, a)| *a).sum();
+            if kind.is_tiered() {
+                for l in parse_lists(kv(line, "smembers").unwrap_or("~")) {
+                    let mut m = Map::new();
+                    ghost_insert(kind, &mut m, &l);
+                    g.maps.push(m);
+                }
+            } else {
+                let mut m = Map::new();
+                ghost_insert(kind, &mut m, &kv_pairs(line, "members").unwrap_or_default());
+                g.maps.push(m);
             }
-            _ => line.to_string(),
+            if kind == Kind::Immutable {
+                g.limit = 0;
+            }
+            self.ghost = Some(g);
+            return;
+        }
+        let Some(g) = self.ghost.as_mut() else { return };
+        let stage = if kind.is_tiered() { kv_u64(line, "stage").unwrap_or(0) as usize } else { 0 };
+        match op {
+            "add" => {
+                if let Some(m) = g.maps.get_mut(stage) {
+                    ghost_insert(kind, m, &kv_pairs(line, "members").unwrap_or_default());
+                }
+            }
+            "rm" => {
+                if let Some(m) = g.maps.get_mut(stage) {
+                    for a in kv_list(line, "addrs").unwrap_or_default() {
+                        m.remove(&(a as u64));
+                    }
+                }
+            }
+            "addstage" => {
+                let mut m = Map::new();
+                ghost_insert(kind, &mut m, &kv_pairs(line, "members").unwrap_or_default());
+                g.maps.push(m);
+            }
+            "rmstage" => g.maps.truncate(stage),
+            "inc" => {
+                g.limit = kv_u64(line, "limit").unwrap_or(g.limit);
+                g.fees_sent += kv_pairs(line, "funds").unwrap_or_default().iter().filter(|(d, _)| *d == 0).map(|(_, a)| *a).sum::<u128>();
+            }
+            _ => {}
+        }
+        if op != "inc" {
+            g.tips += tip;
+            g.tips2 += tip2;
         }
     }
 
@@ -511,6 +739,7 @@ impl S {
         self.last_line = line.to_string();
         self.last_ok = false;
         let tip = kv_u128(line, "tip").unwrap_or(0);
+        let tip2 = kv_u128(line, "tip2").unwrap_or(0);
         let stage = kv_u64(line, "stage").unwrap_or(0);
         let mut panicked = false;
         let mut res = |r: Result<bool, String>| -> bool {
@@ -522,18 +751,19 @@ impl S {
                 }
             }
         };
+        let bad = || (line.to_string(), "bad-op".to_string());
         let ok: bool = match op {
             "inst" => {
                 self.reset_world();
-                self.set_now(kv_u64(line, "now").unwrap());
-                let funds = funds_of(&kv_pairs(line, "funds").unwrap());
-                let limit = kv_u64(line, "limit").unwrap();
-                let whale = kv_opt_u64(line, "whale").unwrap();
-                let admins: Vec<String> = kv_list(line, "admins").unwrap().iter().map(|a| name(*a as u64)).collect();
-                let (start, end) = (kv_u128(line, "start").unwrap(), kv_u128(line, "end").unwrap());
-                let members = kv_pairs(line, "members").unwrap();
-                let stages = kv_pairs(line, "stages").unwrap();
-                let smembers = parse_lists(kv(line, "smembers").unwrap());
+                let Some(now) = kv_u64(line, "now") else { return bad() };
+                self.set_now(now);
+                let (Some(funds), Some(limit), Some(whale), Some(admins), Some(start), Some(end), Some(members), Some(stages), Some(sm)) = (
+                    kv_pairs(line, "funds"), kv_u64(line, "limit"), kv_opt_u64(line, "whale"), kv_list(line, "admins"), kv_u128(line, "start"),
+                    kv_u128(line, "end"), kv_pairs(line, "members"), kv_pairs(line, "stages"), kv(line, "smembers"),
+                ) else { return bad() };
+                let funds = funds_of(&funds);
+                let admins: Vec<String> = admins.iter().map(|a| name(*a as u64)).collect();
+                let smembers = parse_lists(sm);
                 let msg = match kind {
                     Kind::Plain => json!({"members": members_json(kind, &members), "start_time": start.to_string(), "end_time": end.to_string(),
                         "mint_price": {"denom": NATIVE, "amount": "100"}, "per_address_limit": 1, "member_limit": limit,
@@ -562,96 +792,99 @@ impl S {
                     Err(_) => {
                         // nothing existed before an instantiate: a fresh world is the rolled-back state
                         self.reset_world();
+                        self.set_now(now);
                         false
                     }
                 }
             }
             "add" => {
-                let ms = kv_pairs(line, "members").unwrap();
+                let Some(ms) = kv_pairs(line, "members") else { return bad() };
                 let mut m = json!({"to_add": members_json(kind, &ms)});
                 if kind.is_tiered() {
                     m["stage_id"] = json!(stage);
                 }
-                res(self.execute(sender, json!({ "add_members": m }), tip_of(tip)))
+                res(self.execute(sender, json!({ "add_members": m }), tip_of(tip, tip2)))
             }
             "rm" => {
-                let xs: Vec<String> = kv_list(line, "addrs").unwrap().iter().map(|a| name(*a as u64)).collect();
+                let Some(xs) = kv_list(line, "addrs") else { return bad() };
+                let xs: Vec<String> = xs.iter().map(|a| name(*a as u64)).collect();
                 let mut m = json!({ "to_remove": xs });
                 if kind.is_tiered() {
                     m["stage_id"] = json!(stage);
                 }
-                res(self.execute(sender, json!({ "remove_members": m }), tip_of(tip)))
+                res(self.execute(sender, json!({ "remove_members": m }), tip_of(tip, tip2)))
             }
             "addstage" => {
-                let ms = kv_pairs(line, "members").unwrap();
+                let (Some(ms), Some(start), Some(end)) = (kv_pairs(line, "members"), kv_u128(line, "start"), kv_u128(line, "end")) else { return bad() };
                 let n = self.n_stages();
-                let st = stage_json(if kind.is_tiered() { kind } else { Kind::Tiered }, n, kv_u128(line, "start").unwrap(), kv_u128(line, "end").unwrap());
-                res(self.execute(sender, json!({"add_stage": {"stage": st, "members": members_json(kind, &ms)}}), tip_of(tip)))
+                let st = stage_json(if kind.is_tiered() { kind } else { Kind::Tiered }, n, start, end);
+                res(self.execute(sender, json!({"add_stage": {"stage": st, "members": members_json(kind, &ms)}}), tip_of(tip, tip2)))
             }
-            "rmstage" => res(self.execute(sender, json!({"remove_stage": {"stage_id": stage}}), tip_of(tip))),
+            "rmstage" => res(self.execute(sender, json!({"remove_stage": {"stage_id": stage}}), tip_of(tip, tip2))),
             "inc" => {
-                let funds = funds_of(&kv_pairs(line, "funds").unwrap());
-                res(self.execute(sender, json!({"increase_member_limit": kv_u64(line, "limit").unwrap()}), funds))
+                let (Some(funds), Some(limit)) = (kv_pairs(line, "funds"), kv_u64(line, "limit")) else { return bad() };
+                res(self.execute(sender, json!({ "increase_member_limit": limit }), funds_of(&funds)))
             }
             "env" => {
                 let msg = match kv(line, "what").unwrap_or("") {
-                    "upd_start" => json!({"update_start_time": kv_u128(line, "t").unwrap().to_string()}),
-                    "upd_end" => json!({"update_end_time": kv_u128(line, "t").unwrap().to_string()}),
-                    "upd_pal" => json!({"update_per_address_limit": kv_u64(line, "n").unwrap()}),
-                    "upd_admins" => json!({"update_admins": {"admins": kv_list(line, "admins").unwrap().iter().map(|a| name(*a as u64)).collect::<Vec<_>>()}}),
+                    "upd_start" => json!({"update_start_time": kv_u128(line, "t").unwrap_or(0).to_string()}),
+                    "upd_end" => json!({"update_end_time": kv_u128(line, "t").unwrap_or(0).to_string()}),
+                    "upd_pal" => json!({"update_per_address_limit": kv_u64(line, "n").unwrap_or(1)}),
+                    "upd_admins" => json!({"update_admins": {"admins": kv_list(line, "admins").unwrap_or_default().iter().map(|a| name(*a as u64)).collect::<Vec<_>>()}}),
                     "freeze" => json!({"freeze": {}}),
                     "upd_stage" => {
                         let mut m = json!({"stage_id": stage, "name": null, "mint_price": null, "mint_count_limit": null,
-                            "start_time": kv_opt_u128(line, "start").unwrap().map(|t| t.to_string()),
-                            "end_time": kv_opt_u128(line, "end").unwrap().map(|t| t.to_string())});
+                            "start_time": kv_opt_u128(line, "start").unwrap_or(None).map(|t| t.to_string()),
+                            "end_time": kv_opt_u128(line, "end").unwrap_or(None).map(|t| t.to_string())});
                         if kind == Kind::Tiered {
                             m["per_address_limit"] = Value::Null;
                         }
                         json!({ "update_stage_config": m })
                     }
-                    w => panic!("env what={w}"),
+                    _ => return bad(),
                 };
-                res(self.execute(sender, msg, vec![]))
+                res(self.execute(sender, msg, tip_of(tip, tip2)))
+            }
+            "raw" => {
+                // a message given verbatim (hex of its JSON): variants the harness has never heard of
+                let Some(msg) = kv(line, "json").and_then(|h| hex::decode(h).ok()).and_then(|b| serde_json::from_slice::<Value>(&b).ok()) else { return bad() };
+                res(self.execute(sender, msg, tip_of(tip, tip2)))
             }
             "q" | "page" => true,
-            _ => return (line.to_string(), "bad-op".into()),
+            _ => return bad(),
         };
         if panicked {
             return (line.to_string(), "PANIC".into());
         }
         self.last_ok = ok;
-        if ok && tip > 0 && matches!(op, "add" | "rm" | "addstage" | "rmstage") {
-            self.tips_ok += tip;
+        if ok && !matches!(op, "q" | "page") {
+            self.update_ghost(op, line);
         }
         match op {
             "page" => {
-                let after = kv_opt_u64(line, "after").unwrap();
-                let limit = kv_opt_u64(line, "limit").unwrap();
+                let (Some(after), Some(limit)) = (kv_opt_u64(line, "after"), kv_opt_u64(line, "limit")) else { return bad() };
                 let out = if self.wl.is_none() || kind == Kind::Immutable {
-                    // the immutable whitelist has no `Members` query: the JSON does not parse
-                    if self.wl.is_some() {
-                        assert!(self.q(json!({"members": {"start_after": null, "limit": null}})).is_none());
-                    }
                     "err".to_string()
                 } else {
-                    match self.page(stage, after, limit) {
+                    let r = match self.page(stage, after, limit) {
                         Some(p) => format!("ok {}", fmt_pairs(&p)),
                         None => "err".into(),
+                    };
+                    // an invalid `start_after`: what it answers is outside the projection
+                    match after {
+                        Some(a) if a >= 90000 => format!("page ## {r}"),
+                        _ => r,
                     }
                 };
                 (line.to_string(), out)
             }
-            "env" => {
-                let obs = self.observe(pg);
-                (self.env_model_line(line), format!("env {obs}"))
-            }
             "inst" => {
                 let obs = self.observe(pg);
-                (line.to_string(), if ok { format!("ok {obs}") } else { "err none".into() })
+                (format!("{line}{}", self.witness(ok)), if ok { format!("ok {obs}") } else { "err none".into() })
             }
             _ => {
                 let obs = self.observe(pg);
-                (line.to_string(), format!("{} {obs}", if ok { "ok" } else { "err" }))
+                (format!("{line}{}", self.witness(ok)), format!("{} {obs}", if ok { "ok" } else { "err" }))
             }
         }
     }
@@ -659,8 +892,9 @@ impl S {
 
 impl Sut for S {
     fn begin(&mut self, header: &str) -> (String, String) {
-        self.kind = Kind::parse(kv(header, "kind").unwrap());
-        self.uni = kv_list(header, "uni").unwrap().iter().map(|x| *x as u64).collect();
+        self.kind = Kind::parse(kv(header, "kind").unwrap_or("plain"));
+        self.uni = kv_list(header, "uni").unwrap_or_default().iter().map(|x| *x as u64).collect();
+        self.literal = kv(header, "literal") == Some("1");
         self.log.clear();
         self.reset_world();
         self.last_line.clear();
@@ -669,7 +903,7 @@ impl Sut for S {
 
     fn exec(&mut self, line: &str) -> (String, String) {
         let (m, mut out) = self.exec_inner(line);
-        let m = m;
+        let mut m = m;
         if out == "PANIC" {
             // a panic inside a contract call = failed transaction; rebuild the world from the log, then observe
             self.rebuild();
@@ -680,17 +914,15 @@ impl Sut for S {
                 self.set_now(now);
             }
             let obs = self.observe(pg);
-            out = if line.starts_with("env") { format!("env {obs}") } else { format!("err {obs}") };
-            if line.starts_with("env") {
-                self.log.push(line.to_string());
-                return (self.env_model_line(line), out);
-            }
+            out = if line.starts_with("inst") { "err none".into() } else { format!("err {obs}") };
+            m = format!("{line}{}", self.witness(false));
         }
         self.log.push(line.to_string());
         (m, out)
     }
 
-    /// Direct transcription of property C11 on the implementation's own observations (no Lean model involved).
+    /// Direct transcription of property C11 on the implementation's own observations and the harness's own bookkeeping
+    /// of what it sent (no Lean model involved).
     fn monitor(&mut self) -> Option<(String, String)> {
         let line = self.last_line.clone();
         let op = line.split_whitespace().next().unwrap_or("").to_string();
@@ -704,15 +936,18 @@ impl Sut for S {
             "addstage" => "add_stage",
             "rmstage" => "remove_stage",
             "inc" => "increase_member_limit",
-            "env" => "other",
+            "env" | "raw" => "other",
             _ => "query",
         };
         let kind = self.kind;
         let cur = self.cur.clone()?;
+        let ghost = self.ghost.clone().unwrap_or_default();
         let bad = |p: &str, w: String| Some((format!("{}/{}/{}", kind.krate(), opname, p), format!("{w} after `{line}`")));
+        let as_map = |p: &Pairs| -> Map { p.iter().copied().collect() };
+        let stored: Vec<Map> = cur.stored.iter().map(as_map).collect();
 
         // (1) reported count == number of distinct members actually stored, in total and per stage
-        let stored_total: u64 = cur.raw.iter().map(|m| m.len() as u64).sum();
+        let stored_total: u64 = stored.iter().map(|m| m.len() as u64).sum();
         if cur.num != stored_total {
             let p = if kind.is_tiered() && opname == "instantiate" && kv(&line, "smembers").map(|s| parse_lists(s).len()) != kv_pairs(&line, "stages").map(|s| s.len()) {
                 "member-lists-ne-stages"
@@ -721,18 +956,36 @@ impl Sut for S {
             };
             return bad(p, format!("num_members={} but {} distinct members are stored", cur.num, stored_total));
         }
-        if cur.paged != cur.raw.iter().take(cur.paged.len()).cloned().collect::<Vec<_>>() || cur.raw.iter().skip(cur.paged.len()).any(|m| !m.is_empty()) {
-            return bad("paged-ne-stored", format!("paging Members enumerates {:?}, storage holds {:?}", cur.paged, cur.raw));
+        // paging enumerates exactly what is stored: same entries, same order, nothing twice; nothing stored under a stage that does not exist
+        if cur.paged != cur.stored.iter().take(cur.paged.len()).cloned().collect::<Vec<_>>() {
+            let dup = cur.paged.iter().any(|p| as_map(p).len() != p.len());
+            return bad(if dup { "paged-duplicates" } else { "paged-ne-stored" }, format!("paging Members enumerates {:?}, storage holds {:?}", cur.paged, cur.stored));
+        }
+        if cur.stored.iter().skip(cur.paged.len()).any(|m| !m.is_empty()) {
+            return bad("orphan-members", format!("members are stored under a stage that does not exist: {:?}", cur.stored));
         }
         if kind.is_tiered() {
-            for (k, c) in cur.counts.iter().enumerate() {
-                let st = cur.raw.get(k).map(|m| m.len() as u64).unwrap_or(0);
-                if *c != st {
-                    return bad("stage-count-ne-stored", format!("stage {k}: member_count={c} but {st} members are stored"));
+            for k in 0..cur.times.len() {
+                let st = stored.get(k).map(|m| m.len() as u64).unwrap_or(0);
+                if cur.counts.get(k) != Some(&st) {
+                    return bad("stage-count-ne-stored", format!("stage {k}: Stage.member_count={:?} but {st} members are stored", cur.counts.get(k)));
+                }
+                if cur.counts_list.get(k) != Some(&st) {
+                    return bad("stages-count-ne-stored", format!("stage {k}: Stages[].member_count={:?} but {st} members are stored", cur.counts_list.get(k)));
                 }
             }
         }
-        // (2) capacity: count <= limit <= MAX, limit never decreases
+        // the storage holds exactly what the successful messages listed (harness bookkeeping; values: first one listed wins)
+        if self.ghost.is_some() {
+            let mut want = ghost.maps.clone();
+            let mut have = stored.clone();
+            while want.last().map(|m| m.is_empty()).unwrap_or(false) && want.len() > have.len() { want.pop(); }
+            while have.last().map(|m| m.is_empty()).unwrap_or(false) && have.len() > want.len() { have.pop(); }
+            if want != have {
+                return bad("stored-ne-listed", format!("storage holds {:?} but the successful messages listed {:?}", have, want));
+            }
+        }
+        // (2) capacity: count <= limit <= MAX, limit never decreases and is what was asked for
         if kind != Kind::Immutable {
             if cur.num > cur.limit {
                 return bad("count-gt-limit", format!("num_members={} exceeds member_limit={}", cur.num, cur.limit));
@@ -747,13 +1000,16 @@ impl Sut for S {
                     }
                 }
             }
+            if self.ghost.is_some() && cur.limit != ghost.limit {
+                return bad("limit-ne-requested", format!("member_limit={} but the last successful instantiate / IncreaseMemberLimit asked for {}", cur.limit, ghost.limit));
+            }
         }
-        // (3) membership queries answer true exactly for stored members
-        let active: Option<usize> = if kind.is_tiered() { cur.times.iter().position(|(s, e)| *s <= self.now && self.now <= *e) } else { Some(0) };
+        // (3) membership queries answer true exactly for stored members (tiered HasMember / Member: of the stage the contract calls active)
+        let active: Option<usize> = if kind.is_tiered() { cur.act.map(|x| x as usize) } else { Some(0) };
         for (i, a) in self.uni.iter().enumerate() {
-            let valid = *a < 90000 || kind == Kind::Immutable;
+            let valid = self.valid(*a);
             let want = match active {
-                Some(k) => cur.raw.get(k).map(|m| m.contains_key(a)).unwrap_or(false),
+                Some(k) => stored.get(k).map(|m| m.contains_key(a)).unwrap_or(false),
                 None => false,
             };
             match cur.has[i] {
@@ -763,7 +1019,7 @@ impl Sut for S {
             }
             if kind.is_tiered() {
                 for k in 0..cur.times.len() {
-                    let w = cur.raw.get(k).map(|m| m.contains_key(a)).unwrap_or(false);
+                    let w = stored.get(k).map(|m| m.contains_key(a)).unwrap_or(false);
                     if let Some(b) = cur.sm[k][i] {
                         if b != w {
                             return bad("stage-member-ne-stored", format!("StageMemberInfo({k},{a})={b} but stored={w}"));
@@ -772,9 +1028,19 @@ impl Sut for S {
                         return bad("stage-member-error", format!("StageMemberInfo({k},{a}) failed"));
                     }
                 }
+                match &cur.asm[i] {
+                    Some(bs) => {
+                        let w: Vec<bool> = (0..cur.times.len()).map(|k| stored.get(k).map(|m| m.contains_key(a)).unwrap_or(false)).collect();
+                        if *bs != w {
+                            return bad("all-stage-member-ne-stored", format!("AllStageMemberInfo({a})={:?} but stored={:?}", bs, w));
+                        }
+                    }
+                    None if valid => return bad("all-stage-member-error", format!("AllStageMemberInfo({a}) failed")),
+                    None => {}
+                }
             }
-            if kind.is_flex() {
-                let w = active.and_then(|k| cur.raw.get(k)).and_then(|m| m.get(a)).copied();
+            if kind.is_flex() && valid {
+                let w = active.and_then(|k| stored.get(k)).and_then(|m| m.get(a)).copied();
                 if cur.mc[i] != w {
                     return bad("member-ne-stored", format!("Member({a})={:?} but stored={:?}", cur.mc[i], w));
                 }
@@ -783,10 +1049,10 @@ impl Sut for S {
         // (4) add: never double-counted, flex rejects an existing member; remove: requires existing members
         if let (Some(p), true) = (&self.prev, self.last_ok) {
             let k = if kind.is_tiered() { kv_u64(&line, "stage").unwrap_or(0) as usize } else { 0 };
+            let before: Map = p.stored.get(k).map(as_map).unwrap_or_default();
+            let after: Map = stored.get(k).cloned().unwrap_or_default();
             if op == "add" {
-                let listed: Vec<u64> = kv_pairs(&line, "members").unwrap().iter().map(|(a, _)| *a as u64).collect();
-                let before = p.raw.get(k).cloned().unwrap_or_default();
-                let after = cur.raw.get(k).cloned().unwrap_or_default();
+                let listed: Vec<u64> = kv_pairs(&line, "members").unwrap_or_default().iter().map(|(a, _)| *a as u64).collect();
                 let distinct_new: BTreeSet<u64> = listed.iter().filter(|a| !before.contains_key(a)).copied().collect();
                 if cur.num != p.num + distinct_new.len() as u64 {
                     return bad("add-miscounted", format!("count {} -> {} but {} new distinct members were listed", p.num, cur.num, distinct_new.len()));
@@ -805,8 +1071,7 @@ impl Sut for S {
                 }
             }
             if op == "rm" {
-                let listed: Vec<u64> = kv_list(&line, "addrs").unwrap().iter().map(|a| *a as u64).collect();
-                let before = p.raw.get(k).cloned().unwrap_or_default();
+                let listed: Vec<u64> = kv_list(&line, "addrs").unwrap_or_default().iter().map(|a| *a as u64).collect();
                 let set: BTreeSet<u64> = listed.iter().copied().collect();
                 if listed.iter().any(|a| !before.contains_key(a)) || set.len() != listed.len() {
                     return bad("remove-nonmember-accepted", "remove succeeded although a listed address was not a (distinct) stored member".into());
@@ -815,29 +1080,49 @@ impl Sut for S {
                     return bad("remove-miscounted", format!("count {} -> {} for {} removals", p.num, cur.num, listed.len()));
                 }
             }
+            if op == "rmstage" {
+                let gone: u64 = p.stored.iter().skip(k).map(|m| m.len() as u64).sum();
+                if cur.num + gone != p.num {
+                    return bad("remove-stage-miscounted", format!("count {} -> {} but {} members were stored under the removed stages", p.num, cur.num, gone));
+                }
+            }
+            // messages that charge a fee or only touch admins / schedule store and remove nothing
+            if matches!(op.as_str(), "inc" | "env" | "raw") && (p.stored != cur.stored || p.num != cur.num) {
+                return bad("members-changed", format!("stored members / count changed: {:?} ({}) -> {:?} ({})", p.stored, p.num, cur.stored, cur.num));
+            }
+            if matches!(op.as_str(), "add" | "rm" | "addstage" | "rmstage" | "env" | "raw") && p.limit != cur.limit {
+                return bad("limit-changed", format!("member_limit went {} -> {} by a message that is not IncreaseMemberLimit", p.limit, cur.limit));
+            }
         }
-        // (5) fees: ever paid == 100 STARS per started thousand of the current limit; paid exactly; nothing stays
-        let fees_paid = cur.paid - self.tips_ok;
+        // (5) fees: ever paid == 100 STARS per started thousand of the current limit; paid exactly; nothing of a fee stays
+        let fees_paid = cur.paid.saturating_sub(ghost.tips);
         let want = if kind == Kind::Immutable { 0 } else { fee_for_limit(cur.limit) };
-        if fees_paid != want {
+        if fees_paid != want || cur.paid < ghost.tips {
             return bad("fees-ne-tiers", format!("fees ever paid {} != {} for member_limit {}", fees_paid, want, cur.limit));
         }
-        if cur.bal != self.tips_ok {
-            return bad("holds-funds", format!("whitelist balance is {} (funds attached to non-fee messages: {})", cur.bal, self.tips_ok));
+        if self.ghost.is_some() && ghost.fees_sent != want {
+            return bad("fees-sent-ne-tiers", format!("funds attached to the successful instantiate / IncreaseMemberLimit calls {} != {} for member_limit {}", ghost.fees_sent, want, cur.limit));
+        }
+        if cur.bal != ghost.tips || cur.bal2 != ghost.tips2 {
+            return bad("holds-funds", format!("whitelist balance is {} ustars / {} other (funds attached to non-fee messages: {} / {})", cur.bal, cur.bal2, ghost.tips, ghost.tips2));
         }
         if cur.burned + cur.pool != fees_paid {
             return bad("fee-not-burned", format!("burned {} + pool {} != fees paid {}", cur.burned, cur.pool, fees_paid));
         }
-        if cur.other_denoms_moved {
-            return bad("other-denom-moved", "a non-native balance changed".into());
+        if cur.paid2 != ghost.tips2 {
+            return bad("other-denom-moved", format!("{} units of a non-native denom left the senders, {} were attached to successful non-fee messages", cur.paid2, ghost.tips2));
         }
         if self.last_ok && (op == "inst" || op == "inc") && kind != Kind::Immutable {
-            let funds = kv_pairs(&line, "funds").unwrap();
+            let funds = kv_pairs(&line, "funds").unwrap_or_default();
             let paid: u128 = funds.iter().map(|(_, a)| *a).sum();
             let due = if op == "inst" { fee_for_limit(cur.limit) } else { fee_for_limit(cur.limit) - self.prev.as_ref().map(|p| fee_for_limit(p.limit)).unwrap_or(0) };
             if funds.iter().any(|(d, _)| *d != 0) || paid != due {
                 return bad("fee-not-exact", format!("accepted funds {:?} although {} was due", funds, due));
             }
+        }
+        // LITERAL reading of "a whitelist never holds funds" (only in cases that ask for it: `literal=1` in the header)
+        if self.literal && (cur.bal != 0 || cur.bal2 != 0) {
+            return bad("holds-funds-nonfee", format!("the whitelist holds {} ustars and {} of another denom: funds attached to a message that charges no fee are kept (no handler calls nonpayable)", cur.bal, cur.bal2));
         }
         None
     }
@@ -853,6 +1138,8 @@ struct Gen {
     kind: Kind,
     uni: Vec<u64>,
     valid: Vec<u64>,
+    /// lists long enough to cross the pagination limits (25 / 100)
+    big: bool,
     /// parsed from the last observation
     exists: bool,
     num: u64,
@@ -860,14 +1147,15 @@ struct Gen {
     maps: Vec<Vec<(u64, u64)>>,
     start: u64,
     times: Vec<(u64, u64)>,
-    admins: Vec<u64>,
     whale: Option<u64>,
+    /// execute variants of this kind's schema that the harness has no op for (sent verbatim)
+    unknown: Vec<(String, Value)>,
     /// class of the op just generated (marked together with its outcome)
     cls: String,
 }
 
 fn parse_obs(g: &mut Gen, out: &str) {
-    let body = out.splitn(2, ' ').nth(1).unwrap_or("none");
+    let body = primary_part(out).splitn(2, ' ').nth(1).unwrap_or("none");
     if body == "none" {
         g.exists = false;
         return;
@@ -885,15 +1173,19 @@ impl Gen {
     }
     fn pick_limit(&self, rng: &mut Rng, above: u64) -> u64 {
         let max = self.max();
-        let mut c: Vec<u64> = vec![1, 2, 3, 4, 5, 6, 8, 999, 1000, 1001, 1999, 2000, 2001, 2999, 3000, 3001, max.saturating_sub(1), max, max / 2];
+        let mut c: Vec<u64> = if self.big {
+            vec![24, 25, 26, 27, 60, 99, 100, 101, 102, 131, 200, 999, 1000, 1001, 2000, 2001, max]
+        } else {
+            vec![1, 2, 3, 4, 5, 6, 8, 999, 1000, 1001, 1999, 2000, 2001, 2999, 3000, 3001, max.saturating_sub(1), max, max / 2]
+        };
         c.retain(|x| *x > above && *x <= max);
         if c.is_empty() {
             return max + 1;
         }
-        let small: Vec<u64> = c.iter().copied().filter(|x| *x <= 8).collect();
+        let small: Vec<u64> = c.iter().copied().filter(|x| *x <= if self.big { 131 } else { 8 }).collect();
         if rng.chance(1, 6) {
             rng.range(above + 1, max)
-        } else if above < 8 && rng.chance(1, 2) && !small.is_empty() {
+        } else if above < 131 && rng.chance(1, 2) && !small.is_empty() {
             // stay small so that capacity is hit by the member lists
             *rng.pick(&small)
         } else {
@@ -931,6 +1223,25 @@ impl Gen {
             _ => rng.range(0, 5),
         }
     }
+    /// a list size around the pagination limits (big mode) or small
+    fn size(&self, rng: &mut Rng, room: u64) -> usize {
+        let n = if self.big {
+            match rng.below(8) {
+                0 => room,
+                1 => room + 1,
+                2 => 0,
+                _ => *rng.pick(&[1, 2, 24, 25, 26, 27, 30, 60, 99, 100, 101]),
+            }
+        } else {
+            match rng.below(6) {
+                0 => room,
+                1 => room + 1,
+                2 => 0,
+                _ => rng.range(1, 3),
+            }
+        };
+        (n as usize).min(self.valid.len())
+    }
 }
 
 fn fmt_members(ms: &[(u64, u64)]) -> String {
@@ -942,7 +1253,7 @@ fn fee_funds(rng: &mut Rng, fee: u128, fault: bool) -> (Vec<(u128, u128)>, &'sta
     if !fault {
         return (if fee == 0 { vec![] } else { vec![(0, fee)] }, "exact");
     }
-    match rng.below(8) {
+    match rng.below(10) {
         0 => (vec![(0, fee + 1)], "plus1"),
         1 if fee > 0 => (vec![(0, fee - 1)], "minus1"),
         2 => (vec![], "none"),
@@ -950,11 +1261,31 @@ fn fee_funds(rng: &mut Rng, fee: u128, fault: bool) -> (Vec<(u128, u128)>, &'sta
         4 => (vec![(0, fee.max(1)), (1, 5)], "two-coins"),
         5 => (vec![(0, fee + HUNDRED_STARS)], "tier-up"),
         6 if fee >= HUNDRED_STARS => (vec![(0, fee - HUNDRED_STARS)].into_iter().filter(|c| c.1 > 0).collect(), "tier-down"),
+        7 => (vec![(0, 0)], "zero-coin"),
+        8 => (vec![(0, fee.max(1)), (1, 0)], "zero-second"),
         _ => (vec![(0, fee * 2 + 7)], "double"),
     }
 }
 
-fn gen_inst(g: &mut Gen, rng: &mut Rng, _ses: &mut Session, fault: bool) -> String {
+/// funds attached to a message that charges nothing: (ustars, other denom)
+fn gen_tip(rng: &mut Rng) -> (u64, u64) {
+    match rng.below(40) {
+        0 => (rng.range(1, 1000), 0),
+        1 => (0, rng.range(1, 1000)),
+        2 => (rng.range(1, 1000), rng.range(1, 1000)),
+        _ => (0, 0),
+    }
+}
+fn tip_class(t: (u64, u64)) -> &'static str {
+    match (t.0 > 0, t.1 > 0) {
+        (false, false) => "none",
+        (true, false) => "native",
+        (false, true) => "other",
+        (true, true) => "both",
+    }
+}
+
+fn gen_inst(g: &mut Gen, rng: &mut Rng, fault: bool) -> String {
     let kind = g.kind;
     let f = if fault { rng.range(1, 12) } else { 0 };
     let now = T0;
@@ -1001,7 +1332,7 @@ fn gen_inst(g: &mut Gen, rng: &mut Rng, _ses: &mut Session, fault: bool) -> Stri
         start = now + 1;
         end = start;
     }
-    // member list sizes around the capacity
+    // member list sizes around the capacity (big mode: around the pagination limits)
     let cap = limit.min(g.valid.len() as u64) as usize;
     let n = if f == 6 {
         (limit as usize + 1).min(g.valid.len())
@@ -1009,6 +1340,8 @@ fn gen_inst(g: &mut Gen, rng: &mut Rng, _ses: &mut Session, fault: bool) -> Stri
         cap
     } else if rng.chance(1, 8) {
         0
+    } else if g.big {
+        g.size(rng, cap as u64).min(cap)
     } else {
         rng.range(0, cap as u64) as usize
     };
@@ -1044,7 +1377,13 @@ fn gen_inst(g: &mut Gen, rng: &mut Rng, _ses: &mut Session, fault: bool) -> Stri
         // split the capacity over the stages
         let mut left = if f == 6 { limit as usize + 1 } else { cap };
         for i in 0..nl {
-            let k = if i + 1 == nl && f == 6 { left.min(g.valid.len()) } else { rng.range(0, left.min(g.valid.len()) as u64) as usize };
+            let k = if i + 1 == nl && f == 6 {
+                left.min(g.valid.len())
+            } else if g.big && rng.chance(1, 2) {
+                g.size(rng, left as u64).min(left)
+            } else {
+                rng.range(0, left.min(g.valid.len()) as u64) as usize
+            };
             left = left.saturating_sub(k);
             let d2 = dup && rng.chance(1, 2);
             sm.push(g.members(rng, k, d2, invalid && i == 0));
@@ -1059,13 +1398,16 @@ fn gen_inst(g: &mut Gen, rng: &mut Rng, _ses: &mut Session, fault: bool) -> Stri
     let lists = if sm.is_empty() { "~".to_string() } else { sm.iter().map(|l| fmt_members(l)).collect::<Vec<_>>().join("|") };
     let sender = *rng.pick(&[5u64, 7]);
     let raw_n: usize = if kind.is_tiered() { sm.iter().map(|l| l.len()).sum() } else { members.len() };
-    g.cls = format!("{}:inst:f{}:{}:lim{}:raw{}", kind.tag(), f, ftag, limit_class(limit, g.max()), cmp_class(raw_n as u64, limit));
+    g.cls = format!("{}:inst:f{}:{}:lim{}:raw{}:{}", kind.tag(), f, ftag, limit_class(limit, g.max()), cmp_class(raw_n as u64, limit), size_class(raw_n as u64));
     format!(
         "inst sender={sender} now={now} funds={} limit={limit} whale={} admins={} start={start} end={end} members={} stages={} smembers={} pg={}",
-        fmt_pairs(&funds), fmt_opt(&whale), fmt_list(&admins), fmt_members(&members), fmt_pairs(&stages), lists, rng.range(1, 4)
+        fmt_pairs(&funds), fmt_opt(&whale), fmt_list(&admins), fmt_members(&members), fmt_pairs(&stages), lists, pick_pg(rng, g.big)
     )
 }
 
+fn pick_pg(rng: &mut Rng, big: bool) -> u64 {
+    if big { *rng.pick(&[7, 24, 25, 26, 99, 100, 101, 1000]) } else { rng.range(1, 4) }
+}
 fn limit_class(l: u64, max: u64) -> String {
     if l == 0 { "0".into() } else if l > max { "gtmax".into() } else if l == max { "max".into() } else if l + 1 == max { "max-1".into() }
     else if l % 1000 == 0 { "k000".into() } else if l % 1000 == 1 { "k001".into() } else if l % 1000 == 999 { "k999".into() } else if l <= 8 { "small".into() } else { "mid".into() }
@@ -1073,10 +1415,14 @@ fn limit_class(l: u64, max: u64) -> String {
 fn cmp_class(a: u64, b: u64) -> &'static str {
     if a < b { "lt" } else if a == b { "eq" } else { "gt" }
 }
+/// list length relative to the pagination limits
+fn size_class(n: u64) -> &'static str {
+    if n <= 8 { "s" } else if n < 25 { "lt25" } else if n == 25 { "25" } else if n < 100 { "26-99" } else if n == 100 { "100" } else { "gt100" }
+}
 
-fn gen_op(g: &mut Gen, rng: &mut Rng, _ses: &mut Session) -> String {
+fn gen_op(g: &mut Gen, rng: &mut Rng) -> String {
     let kind = g.kind;
-    let pg = rng.range(1, 4);
+    let pg = pick_pg(rng, g.big);
     let fault = rng.chance(3, 10);
     let ns = g.maps.len() as u64;
     // clock: mostly before anything starts; sometimes exactly at an edge
@@ -1088,7 +1434,8 @@ fn gen_op(g: &mut Gen, rng: &mut Rng, _ses: &mut Session) -> String {
         T0 + rng.range(1, 900) * SEC
     };
     let sender = if fault && rng.chance(1, 4) { 7 } else { 5 };
-    let tip = if rng.chance(1, 25) { rng.range(1, 1000) } else { 0 };
+    let tip = gen_tip(rng);
+    let tips = format!("tip={} tip2={}", tip.0, tip.1);
     let stage = if kind.is_tiered() {
         if fault && rng.chance(1, 5) { ns } else { rng.below(ns.max(1)) }
     } else {
@@ -1098,19 +1445,12 @@ fn gen_op(g: &mut Gen, rng: &mut Rng, _ses: &mut Session) -> String {
     let room = g.limit.saturating_sub(g.num);
     let roll = rng.below(100);
     let tiered = kind.is_tiered();
-    if roll < 38 {
+    if roll < 36 {
         // add
-        let n = match rng.below(6) {
-            0 => room as usize,
-            1 => room as usize + 1,
-            2 => 0,
-            _ => rng.range(1, 3) as usize,
-        }
-        .min(g.valid.len());
+        let n = g.size(rng, room);
         let mut ms = if kind == Kind::Flex && !fault {
             // flex rejects existing members: draw from the non-members
-            let non: Vec<u64> = g.valid.iter().copied().filter(|a| !cur.iter().any(|m| m.0 == *a)).collect();
-            let mut non = non;
+            let mut non: Vec<u64> = g.valid.iter().copied().filter(|a| !cur.iter().any(|m| m.0 == *a)).collect();
             rng.shuffle(&mut non);
             non.into_iter().take(n).map(|a| (a, g.count(rng))).collect()
         } else {
@@ -1131,14 +1471,15 @@ fn gen_op(g: &mut Gen, rng: &mut Rng, _ses: &mut Session) -> String {
         }
         let existing = ms.iter().filter(|m| cur.iter().any(|c| c.0 == m.0)).count();
         let distinct_new: BTreeSet<u64> = ms.iter().map(|m| m.0).filter(|a| !cur.iter().any(|c| c.0 == *a)).collect();
-        g.cls = format!("{}:add:new{}:room{}:existing{}:sender{}:tip{}:overcap{}", kind.tag(), cmp_class(distinct_new.len() as u64, room), room.min(2), existing.min(2), sender, tip.min(1), overcap);
-        format!("add sender={sender} now={now} tip={tip} stage={stage} members={} pg={pg}", fmt_members(&ms))
-    } else if roll < 58 {
+        g.cls = format!("{}:add:new{}:room{}:existing{}:sender{}:tip-{}:overcap{}:{}", kind.tag(), cmp_class(distinct_new.len() as u64, room), room.min(2), existing.min(2), sender, tip_class(tip), overcap, size_class(ms.len() as u64));
+        format!("add sender={sender} now={now} {tips} stage={stage} members={} pg={pg}", fmt_members(&ms))
+    } else if roll < 56 {
         // remove
         let mut xs: Vec<u64> = vec![];
         let mut pool = cur.clone();
         rng.shuffle(&mut pool);
-        for m in pool.iter().take(rng.range(1, 2) as usize) {
+        let k = if g.big && rng.chance(1, 2) { *rng.pick(&[25usize, 26, 30, 100, 101]) } else { rng.range(1, 2) as usize };
+        for m in pool.iter().take(k) {
             xs.push(m.0);
         }
         let mut tag = "members";
@@ -1152,9 +1493,9 @@ fn gen_op(g: &mut Gen, rng: &mut Rng, _ses: &mut Session) -> String {
         }
         if xs.is_empty() { tag = "empty"; }
         let started = if tiered { g.times.get(stage as usize).map(|t| now >= t.0).unwrap_or(false) } else { now >= g.start };
-        g.cls = format!("{}:rm:{}:started{}:sender{}", kind.tag(), tag, started, sender);
-        format!("rm sender={sender} now={now} tip={tip} stage={stage} addrs={} pg={pg}", fmt_list(&xs))
-    } else if roll < 74 {
+        g.cls = format!("{}:rm:{}:started{}:sender{}:tip-{}:{}", kind.tag(), tag, started, sender, tip_class(tip), size_class(xs.len() as u64));
+        format!("rm sender={sender} now={now} {tips} stage={stage} addrs={} pg={pg}", fmt_list(&xs))
+    } else if roll < 72 {
         // increase limit — anybody may call it
         let sender = *rng.pick(&[5u64, 7, 8]);
         let lim = if fault && rng.chance(1, 3) { *rng.pick(&[g.limit, g.limit.saturating_sub(1), g.max() + 1]) } else { g.pick_limit(rng, g.limit) };
@@ -1163,7 +1504,7 @@ fn gen_op(g: &mut Gen, rng: &mut Rng, _ses: &mut Session) -> String {
         let (funds, ftag) = fee_funds(rng, fee, ff);
         g.cls = format!("{}:inc:{}->{}:fee{}:{}", kind.tag(), limit_class(g.limit, g.max()), limit_class(lim, g.max()), (fee / HUNDRED_STARS).min(3), ftag);
         format!("inc sender={sender} now={now} funds={} limit={lim} pg={pg}", fmt_pairs(&funds))
-    } else if roll < 84 && (tiered || rng.chance(1, 6)) {
+    } else if roll < 82 && (tiered || rng.chance(1, 6)) {
         // add stage (flat kinds: the message does not exist)
         let last_end = g.times.last().map(|t| t.1).unwrap_or(T0 + 1_000 * SEC);
         let mut start = last_end + if rng.chance(1, 2) { 0 } else { 100 * SEC };
@@ -1178,7 +1519,7 @@ fn gen_op(g: &mut Gen, rng: &mut Rng, _ses: &mut Session) -> String {
                 _ => {}
             }
         }
-        let n = match rng.below(4) { 0 => room as usize, 1 => room as usize + 1, _ => rng.range(0, 3) as usize }.min(g.valid.len());
+        let n = g.size(rng, room);
         let (d2, i2) = (rng.chance(1, 3), fault && rng.chance(1, 8));
         let mut ms = g.members(rng, n, d2, i2);
         // tiered-flex `add_stage` does enforce the whale cap
@@ -1188,45 +1529,61 @@ fn gen_op(g: &mut Gen, rng: &mut Rng, _ses: &mut Session) -> String {
             ms[i].1 = c + 1;
             overcap = 1;
         }
-        g.cls = format!("{}:addstage:{}:ns{}:n{}:sender{}:overcap{}", kind.tag(), tag, ns, cmp_class(n as u64, room), sender, overcap);
-        format!("addstage sender={sender} now={now2} tip={tip} start={start} end={end} members={} pg={pg}", fmt_members(&ms))
-    } else if roll < 90 && (tiered || rng.chance(1, 6)) {
+        g.cls = format!("{}:addstage:{}:ns{}:n{}:sender{}:overcap{}:tip-{}:{}", kind.tag(), tag, ns, cmp_class(n as u64, room), sender, overcap, tip_class(tip), size_class(ms.len() as u64));
+        format!("addstage sender={sender} now={now2} {tips} start={start} end={end} members={} pg={pg}", fmt_members(&ms))
+    } else if roll < 88 && (tiered || rng.chance(1, 6)) {
         let started = g.times.get(stage as usize).map(|t| now >= t.0).unwrap_or(false);
-        g.cls = format!("{}:rmstage:stage{}of{}:started{}:sender{}", kind.tag(), stage, ns, started, sender);
-        format!("rmstage sender={sender} now={now} tip={tip} stage={stage} pg={pg}")
-    } else if roll < 95 {
-        // messages that only touch admins / times: the model takes the read-back values as environment
-        let what: Vec<&str> = if tiered { vec!["upd_stage", "upd_admins", "freeze"] } else { vec!["upd_start", "upd_end", "upd_admins", "freeze", "upd_pal"] };
+        let held: usize = g.maps.iter().skip(stage as usize).map(|m| m.len()).sum();
+        g.cls = format!("{}:rmstage:stage{}of{}:started{}:sender{}:tip-{}:{}", kind.tag(), stage, ns, started, sender, tip_class(tip), size_class(held as u64));
+        format!("rmstage sender={sender} now={now} {tips} stage={stage} pg={pg}")
+    } else if roll < 94 {
+        // messages that only touch admins / times; every fourth carries funds
+        let tip = if rng.chance(1, 4) {
+            match rng.below(3) {
+                0 => (rng.range(2, 50), 0),
+                1 => (0, rng.range(1, 50)),
+                _ => (rng.range(1, 50), rng.range(1, 50)),
+            }
+        } else {
+            (0, 0)
+        };
+        let tips = format!("tip={} tip2={}", tip.0, tip.1);
+        if !g.unknown.is_empty() && rng.chance(1, 2) {
+            // a message this harness has never heard of, sent as the schema describes it
+            let (n, msg) = rng.pick(&g.unknown).clone();
+            g.cls = format!("{}:surface:unknown:{}", kind.tag(), n);
+            return format!("raw sender={sender} now={now} {tips} name={n} json={} pg={pg}", hex::encode(serde_json::to_vec(&msg).unwrap_or_default()));
+        }
+        let what: Vec<&str> = if tiered { vec!["upd_stage", "upd_admins", "freeze"] } else if kind == Kind::Plain { vec!["upd_start", "upd_end", "upd_admins", "freeze", "upd_pal"] } else { vec!["upd_start", "upd_end", "upd_admins", "freeze"] };
         let w = *rng.pick(&what);
-        g.cls = format!("{}:env:{}", kind.tag(), w);
+        g.cls = format!("{}:env:{}:tip-{}", kind.tag(), w, tip_class(tip));
         match w {
-            "upd_start" => format!("env what=upd_start sender={sender} now={now} t={} pg={pg}", T0 + rng.range(500, 1500) * SEC),
-            "upd_end" => format!("env what=upd_end sender={sender} now={now} t={} pg={pg}", T0 + rng.range(900, 6000) * SEC),
-            "upd_pal" => format!("env what=upd_pal sender={sender} now={now} n={} pg={pg}", rng.range(0, 31)),
-            "upd_admins" => format!("env what=upd_admins sender={sender} now={now} admins={} pg={pg}", if rng.chance(1, 2) { "5,6" } else { "5" }),
-            "freeze" => format!("env what=freeze sender={sender} now={now} pg={pg}"),
+            "upd_start" => format!("env what=upd_start sender={sender} now={now} {tips} t={} pg={pg}", T0 + rng.range(500, 1500) * SEC),
+            "upd_end" => format!("env what=upd_end sender={sender} now={now} {tips} t={} pg={pg}", T0 + rng.range(900, 6000) * SEC),
+            "upd_pal" => format!("env what=upd_pal sender={sender} now={now} {tips} n={} pg={pg}", rng.range(0, 31)),
+            "upd_admins" => format!("env what=upd_admins sender={sender} now={now} {tips} admins={} pg={pg}", if rng.chance(1, 2) { "5,6" } else { "5" }),
+            "freeze" => format!("env what=freeze sender={sender} now={now} {tips} pg={pg}"),
             _ => {
                 let (s, e) = g.times.get(stage as usize).copied().unwrap_or((T0, T0 + 1));
                 let ns_ = if rng.chance(1, 2) { fmt_opt(&Some(s + rng.range(0, 50) * SEC)) } else { "-".into() };
                 let ne = if rng.chance(1, 2) { fmt_opt(&Some(e - rng.range(0, 50) * SEC)) } else { "-".into() };
-                format!("env what=upd_stage sender={sender} now={now} stage={stage} start={ns_} end={ne} pg={pg}")
+                format!("env what=upd_stage sender={sender} now={now} {tips} stage={stage} start={ns_} end={ne} pg={pg}")
             }
         }
-    } else if roll < 98 {
+    } else if roll < 97 {
         g.cls = format!("{}:q", kind.tag());
         format!("q now={now} pg={pg}")
     } else {
         let after = if rng.chance(1, 2) { None } else { Some(*rng.pick(&g.uni)) };
-        let limit = match rng.below(5) { 0 => None, 1 => Some(0), 2 => Some(1000), _ => Some(rng.range(1, 5)) };
-        g.cls = format!("{}:page:after{}:limit{}", kind.tag(), after.map(|a| if a >= 90000 { "invalid" } else { "some" }).unwrap_or("none"), limit.map(|l| l.min(6).to_string()).unwrap_or("none".into()));
+        let limit = match rng.below(6) { 0 => None, 1 => Some(0), 2 => Some(1000), 3 => Some(*rng.pick(&[24, 25, 26, 99, 100, 101])), _ => Some(rng.range(1, 5)) };
+        g.cls = format!("{}:page:after{}:limit{}:{}", kind.tag(), after.map(|a| if a >= 90000 { "invalid" } else { "some" }).unwrap_or("none"), limit.map(|l| l.min(102).to_string()).unwrap_or("none".into()), size_class(cur.len() as u64));
         format!("page stage={stage} after={} limit={}", fmt_opt(&after), fmt_opt(&limit))
     }
 }
 
-/// keep the generator's view of times / admins in step (parsed from the model line's witness fields)
+/// keep the generator's view of the schedule in step with what the contract reports
 fn absorb_env(g: &mut Gen, sut: &S) {
     if let Some(s) = &sut.cur {
-        g.admins = s.admins.clone();
         if g.kind.is_tiered() {
             g.times = s.times.clone();
         } else if let Some(t) = s.times.first() {
@@ -1235,10 +1592,18 @@ fn absorb_env(g: &mut Gen, sut: &S) {
     }
 }
 
-fn run_trace(ses: &mut Session, sut: &mut S, kind: Kind, rng: &mut Rng, n_ops: u64) {
-    let uni: Vec<u64> = vec![10, 11, 12, 13, 14, 15, 16, 17, 90001];
-    let mut g = Gen { kind, uni: uni.clone(), valid: uni.iter().copied().filter(|a| *a < 90000).collect(), exists: false, num: 0, limit: 0, maps: vec![], start: 0, times: vec![], admins: vec![], whale: None, cls: String::new() };
-    ses.begin_case(sut, &format!("case kind={} uni={}", kind.tag(), fmt_list(&uni)));
+fn outcome(out: &str) -> &str {
+    out.split(' ').next().unwrap_or("?")
+}
+
+fn run_trace(ses: &mut Session, sut: &mut S, kind: Kind, rng: &mut Rng, n_ops: u64, big: bool, unknown: &[(String, Value)]) {
+    let (uni, valid): (Vec<u64>, Vec<u64>) = if big {
+        (vec![100, 124, 125, 126, 199, 200, 201, 230, 231, 90001], (100..=230).collect())
+    } else {
+        (vec![10, 11, 12, 13, 14, 15, 16, 17, 90001], (10..=17).collect())
+    };
+    let mut g = Gen { kind, uni: uni.clone(), valid, big, exists: false, num: 0, limit: 0, maps: vec![], start: 0, times: vec![], whale: None, unknown: unknown.to_vec(), cls: String::new() };
+    ses.begin_case(sut, &format!("case kind={} uni={}{}", kind.tag(), fmt_list(&uni), if big { " big=1" } else { "" }));
     // an op before any instantiate
     if rng.chance(1, 10) {
         ses.step(sut, "q now=1 pg=2");
@@ -1246,9 +1611,9 @@ fn run_trace(ses: &mut Session, sut: &mut S, kind: Kind, rng: &mut Rng, n_ops: u
     let mut tries = 0;
     while !g.exists && tries < 4 {
         let fault = rng.chance(3, 10);
-        let line = gen_inst(&mut g, rng, ses, fault);
+        let line = gen_inst(&mut g, rng, fault);
         let out = ses.step(sut, &line);
-        ses.mark(format!("{}:{}", g.cls, out.split(' ').next().unwrap_or("?")));
+        ses.mark(format!("{}:{}", g.cls, outcome(&out)));
         parse_obs(&mut g, &out);
         ses.count(&format!("inst:{}:{}", kind.tag(), if g.exists { "ok" } else { "err" }));
         tries += 1;
@@ -1256,9 +1621,9 @@ fn run_trace(ses: &mut Session, sut: &mut S, kind: Kind, rng: &mut Rng, n_ops: u
     absorb_env(&mut g, sut);
     if g.exists {
         for _ in 0..n_ops {
-            let line = gen_op(&mut g, rng, ses);
+            let line = gen_op(&mut g, rng);
             let out = ses.step(sut, &line);
-            ses.mark(format!("{}:{}", g.cls, out.split(' ').next().unwrap_or("?")));
+            ses.mark(format!("{}:{}", g.cls, outcome(&out)));
             if !line.starts_with("page") {
                 parse_obs(&mut g, &out);
             }
@@ -1271,87 +1636,230 @@ fn run_trace(ses: &mut Session, sut: &mut S, kind: Kind, rng: &mut Rng, n_ops: u
     ses.end_case();
 }
 
-/// hand-written boundary scenarios (limits around the fee tiers and MAX, duplicate handling, capacity quirks)
-fn scripted(ses: &mut Session, sut: &mut S) {
+/// mark `class` only if the implementation answered as the unchanged code does (coverage-floor classes)
+fn expect(ses: &mut Session, out: &str, want: &str, class: String) {
+    if outcome(out) == want {
+        ses.mark(class);
+    }
+}
+
+fn range_members(lo: u64, hi: u64, kind: Kind) -> String {
+    (lo..=hi).map(|a| format!("{a}:{}", if kind.is_flex() { a % 5 } else { 0 })).collect::<Vec<_>>().join(",")
+}
+
+/// hand-written boundary scenarios (limits around the fee tiers and MAX, duplicate handling, capacity quirks, tips, sizes
+/// beyond the pagination limits)
+fn scripted(ses: &mut Session, sut: &mut S, literal: bool) {
     let uni = "10,11,12,13,14,15,16,17,90001";
     let st = T0 + 1_000 * SEC;
     let en = T0 + 5_000 * SEC;
-    for kind in [Kind::Plain, Kind::Flex, Kind::Tiered, Kind::TFlex] {
+    for kind in MUTABLE {
         let max = kind.max_members();
         let k = kind.tag();
         let stages = format!("{}:{},{}:{}", st, st + 500 * SEC, st + 500 * SEC, st + 900 * SEC);
-        let inst = |limit: u64, funds: u128, members: &str, sm: &str| {
-            format!("inst sender=5 now={T0} funds=0:{funds} limit={limit} whale=- admins=5 start={st} end={en} members={members} stages={stages} smembers={sm} pg=3")
+        let inst = |limit: u64, funds: &str, members: &str, sm: &str| {
+            format!("inst sender=5 now={T0} funds={funds} limit={limit} whale=- admins=5 start={st} end={en} members={members} stages={stages} smembers={sm} pg=3")
         };
+        let inst_fee = |limit: u64, funds: u128, members: &str, sm: &str| inst(limit, &format!("0:{funds}"), members, sm);
         // fee tiers at instantiate: exact fee accepted, neighbours rejected
         for limit in [1u64, 999, 1000, 1001, 1999, 2000, 2001, max - 1, max, max + 1] {
             ses.begin_case(sut, &format!("case kind={k} uni={uni} scripted=inst-tier-{limit}"));
             let fee = fee_for_limit(limit);
-            ses.step(sut, &inst(limit, fee - 1, "10:1", "10:1|-"));
-            ses.step(sut, &inst(limit, fee + HUNDRED_STARS, "10:1", "10:1|-"));
-            ses.step(sut, &inst(limit, fee, "10:1,11:2", "10:1|11:2"));
-            ses.mark(format!("{k}:scripted:inst-tier:{}", limit_class(limit, max)));
+            let lc = limit_class(limit, max);
+            let o = ses.step(sut, &inst_fee(limit, fee - 1, "10:1", "10:1|-"));
+            expect(ses, &o, "err", format!("{k}:fee:inst:minus1:err:{lc}"));
+            let o = ses.step(sut, &inst_fee(limit, fee + 1, "10:1", "10:1|-"));
+            expect(ses, &o, "err", format!("{k}:fee:inst:plus1:err:{lc}"));
+            let o = ses.step(sut, &inst_fee(limit, fee + HUNDRED_STARS, "10:1", "10:1|-"));
+            expect(ses, &o, "err", format!("{k}:fee:inst:tier-up:err:{lc}"));
+            ses.step(sut, &inst(limit, &format!("1:{fee}"), "10:1", "10:1|-"));
+            ses.step(sut, &inst(limit, &format!("0:{fee},1:0"), "10:1", "10:1|-"));
+            let o = ses.step(sut, &inst_fee(limit, fee, "10:1,11:2", "10:1|11:2"));
+            expect(ses, &o, if limit <= max { "ok" } else { "err" }, format!("{k}:fee:inst:exact:{}:{lc}", if limit <= max { "ok" } else { "err" }));
+            ses.mark(format!("{k}:scripted:inst-tier:{lc}"));
             ses.end_case();
         }
         // chain of limit increases across the tiers (telescoping), free inside a tier
         ses.begin_case(sut, &format!("case kind={k} uni={uni} scripted=inc-chain"));
-        ses.step(sut, &inst(1, HUNDRED_STARS, "10:1", "10:1|-"));
+        ses.step(sut, &inst_fee(1, HUNDRED_STARS, "10:1", "10:1|-"));
         let mut cur = 1u64;
         for lim in [999u64, 1000, 1001, 1001, 1000, 1999, 2000, 2001, 4000, max - 1, max, max + 1] {
             let fee = if lim > cur && lim <= max { fee_for_limit(lim) - fee_for_limit(cur) } else { 0 };
+            let fc = if fee > 0 { "paid" } else { "free" };
             // wrong payments first
-            ses.step(sut, &format!("inc sender=7 now={} funds=0:{} limit={lim} pg=2", T0 + SEC, fee + 1));
+            let o = ses.step(sut, &format!("inc sender=7 now={} funds=0:{} limit={lim} pg=2", T0 + SEC, fee + 1));
+            expect(ses, &o, "err", format!("{k}:fee:inc:plus1:err:{fc}"));
             if fee > 0 {
-                ses.step(sut, &format!("inc sender=7 now={} funds=- limit={lim} pg=2", T0 + SEC));
+                let o = ses.step(sut, &format!("inc sender=7 now={} funds=- limit={lim} pg=2", T0 + SEC));
+                expect(ses, &o, "err", format!("{k}:fee:inc:none:err"));
+                let o = ses.step(sut, &format!("inc sender=7 now={} funds=0:{} limit={lim} pg=2", T0 + SEC, fee - 1));
+                expect(ses, &o, "err", format!("{k}:fee:inc:minus1:err"));
+                ses.step(sut, &format!("inc sender=7 now={} funds=1:{fee} limit={lim} pg=2", T0 + SEC));
+            } else {
+                // inside a tier nothing is due: a zero coin / a coin of another denom must not be taken either
+                ses.step(sut, &format!("inc sender=7 now={} funds=0:0 limit={lim} pg=2", T0 + SEC));
+                ses.step(sut, &format!("inc sender=7 now={} funds=1:5 limit={lim} pg=2", T0 + SEC));
             }
             let f = if fee == 0 { "-".to_string() } else { format!("0:{fee}") };
             let out = ses.step(sut, &format!("inc sender=7 now={} funds={f} limit={lim} pg=2", T0 + SEC));
             if out.starts_with("ok") {
                 cur = lim;
+                ses.mark(format!("{k}:fee:inc:exact:ok:{fc}"));
             }
             ses.mark(format!("{k}:scripted:inc:{}", limit_class(lim, max)));
         }
         ses.end_case();
         // duplicates at instantiate (the repaired F-C11a/b/c inputs)
         ses.begin_case(sut, &format!("case kind={k} uni={uni} scripted=inst-dups"));
-        ses.step(sut, &inst(3, HUNDRED_STARS, "10:1,10:2,11:1", "10:1,10:2|11:1,11:1"));
-        ses.step(sut, &inst(2, HUNDRED_STARS, "10:1,10:2,11:1", "10:1,10:2|11:1"));
-        ses.step(sut, &inst(5, HUNDRED_STARS, "12:3,10:1,12:4,10:2", "12:3,10:1,12:4|10:2,10:2,13:1"));
+        ses.step(sut, &inst_fee(3, HUNDRED_STARS, "10:1,10:2,11:1", "10:1,10:2|11:1,11:1"));
+        ses.step(sut, &inst_fee(2, HUNDRED_STARS, "10:1,10:2,11:1", "10:1,10:2|11:1"));
+        ses.step(sut, &inst_fee(5, HUNDRED_STARS, "12:3,10:1,12:4,10:2", "12:3,10:1,12:4|10:2,10:2,13:1"));
         if kind.is_tiered() {
-            ses.step(sut, &inst(5, HUNDRED_STARS, "-", "10:1"));
-            ses.step(sut, &inst(5, HUNDRED_STARS, "-", "10:1|11:1,12:1|13:1"));
-            ses.step(sut, &inst(5, HUNDRED_STARS, "-", "~"));
-            ses.step(sut, &inst(5, HUNDRED_STARS, "-", "-|-"));
-            ses.step(sut, &format!("addstage sender=5 now={} tip=0 start={} end={} members=10:1,10:2,11:1,10:3 pg=1", T0 + SEC, st + 900 * SEC, st + 1000 * SEC));
-            ses.step(sut, &format!("rmstage sender=5 now={} tip=0 stage=0 pg=1", T0 + SEC));
-            ses.step(sut, &format!("addstage sender=5 now={} tip=0 start={} end={} members=12:1,12:1 pg=1", T0 + SEC, st, st + 10));
+            ses.step(sut, &inst_fee(5, HUNDRED_STARS, "-", "10:1"));
+            ses.step(sut, &inst_fee(5, HUNDRED_STARS, "-", "10:1|11:1,12:1|13:1"));
+            ses.step(sut, &inst_fee(5, HUNDRED_STARS, "-", "~"));
+            ses.step(sut, &inst_fee(5, HUNDRED_STARS, "-", "-|-"));
+            ses.step(sut, &format!("addstage sender=5 now={} tip=0 tip2=0 start={} end={} members=10:1,10:2,11:1,10:3 pg=1", T0 + SEC, st + 900 * SEC, st + 1000 * SEC));
+            ses.step(sut, &format!("rmstage sender=5 now={} tip=0 tip2=0 stage=0 pg=1", T0 + SEC));
+            ses.step(sut, &format!("addstage sender=5 now={} tip=0 tip2=0 start={} end={} members=12:1,12:1 pg=1", T0 + SEC, st, st + 10));
         }
         ses.mark(format!("{k}:scripted:dups"));
         ses.end_case();
-        // capacity quirk: an existing member at a full list, order of the sorted list
+        // capacity: fill exactly to the limit, one more is rejected; an existing member at a full list; same-block repeats
         ses.begin_case(sut, &format!("case kind={k} uni={uni} scripted=full"));
-        ses.step(sut, &inst(2, HUNDRED_STARS, "11:1", "11:1|-"));
-        ses.step(sut, &format!("add sender=5 now={} tip=0 stage=0 members=11:1,12:1 pg=2", T0 + SEC));
-        ses.step(sut, &format!("add sender=5 now={} tip=0 stage=0 members=11:1 pg=2", T0 + SEC));
-        ses.step(sut, &format!("rm sender=5 now={} tip=0 stage=0 addrs=12 pg=2", T0 + SEC));
-        ses.step(sut, &format!("add sender=5 now={} tip=0 stage=0 members=10:1,11:1 pg=2", T0 + SEC));
-        ses.step(sut, &format!("rm sender=5 now={} tip=0 stage=0 addrs=10 pg=2", T0 + SEC));
-        ses.step(sut, &format!("add sender=5 now={} tip=0 stage=0 members=12:1,11:1 pg=2", T0 + SEC));
-        ses.step(sut, &format!("rm sender=5 now={} tip=0 stage=0 addrs=11,11 pg=2", T0 + SEC));
-        ses.step(sut, &format!("rm sender=5 now={} tip=0 stage=0 addrs=11,12 pg=2", st - 1));
-        ses.step(sut, &format!("add sender=5 now={} tip=5 stage=0 members=13:1 pg=2", st));
-        ses.step(sut, &format!("rm sender=5 now={} tip=0 stage=0 addrs=13 pg=2", st));
+        let o = ses.step(sut, &inst_fee(3, HUNDRED_STARS, "11:1", "11:1|-"));
+        expect(ses, &o, "ok", format!("{k}:ok:inst"));
+        let o = ses.step(sut, &format!("add sender=5 now={} tip=0 tip2=0 stage=0 members=12:1,13:1,14:1 pg=2", T0 + SEC));
+        expect(ses, &o, "err", format!("{k}:cap:add:room+1:err"));
+        let o = ses.step(sut, &format!("add sender=5 now={} tip=0 tip2=0 stage=0 members=12:1,13:1 pg=2", T0 + SEC));
+        expect(ses, &o, "ok", format!("{k}:cap:add:room:ok"));
+        expect(ses, &o, "ok", format!("{k}:ok:add"));
+        ses.step(sut, &format!("add sender=5 now={} tip=0 tip2=0 stage=0 members=14:1 pg=2", T0 + SEC));
+        ses.step(sut, &format!("add sender=5 now={} tip=0 tip2=0 stage=0 members=11:1 pg=2", T0 + SEC));
+        let o = ses.step(sut, &format!("rm sender=5 now={} tip=0 tip2=0 stage=0 addrs=12 pg=2", T0 + SEC));
+        expect(ses, &o, "ok", format!("{k}:ok:rm"));
+        // the same removal again in the same block: the member is gone
+        let o = ses.step(sut, &format!("rm sender=5 now={} tip=0 tip2=0 stage=0 addrs=12 pg=2", T0 + SEC));
+        expect(ses, &o, "err", format!("{k}:rm:repeat-same-block:err"));
+        ses.step(sut, &format!("add sender=5 now={} tip=0 tip2=0 stage=0 members=10:1,11:1 pg=2", T0 + SEC));
+        ses.step(sut, &format!("rm sender=5 now={} tip=0 tip2=0 stage=0 addrs=10 pg=2", T0 + SEC));
+        ses.step(sut, &format!("add sender=5 now={} tip=0 tip2=0 stage=0 members=12:1,11:1 pg=2", T0 + SEC));
+        ses.step(sut, &format!("rm sender=5 now={} tip=0 tip2=0 stage=0 addrs=11,11 pg=2", T0 + SEC));
+        // an increase between two adds: the list is full, then it is not
+        ses.step(sut, &format!("add sender=5 now={} tip=0 tip2=0 stage=0 members=15:1 pg=2", T0 + SEC));
+        let o = ses.step(sut, &format!("inc sender=8 now={} funds=- limit=4 pg=2", T0 + SEC));
+        expect(ses, &o, "ok", format!("{k}:ok:inc"));
+        let o = ses.step(sut, &format!("add sender=5 now={} tip=0 tip2=0 stage=0 members=17:1 pg=2", T0 + SEC));
+        expect(ses, &o, "ok", format!("{k}:cap:add-after-inc:ok"));
+        ses.step(sut, &format!("add sender=5 now={} tip=0 tip2=0 stage=0 members=16:1 pg=2", T0 + SEC));
+        // the removal gate at start -1 / 0 / +1 ns (the schedule is C12/C13's; here: count and storage stay exact either way)
+        ses.step(sut, &format!("rm sender=5 now={} tip=0 tip2=0 stage=0 addrs=11 pg=2", st - 1));
+        ses.step(sut, &format!("rm sender=5 now={} tip=0 tip2=0 stage=0 addrs=13 pg=2", st));
+        ses.step(sut, &format!("rm sender=5 now={} tip=0 tip2=0 stage=0 addrs=13 pg=2", st + 1));
         ses.step(sut, &format!("q now={} pg=1", st + 500 * SEC));
         ses.step(sut, &format!("q now={} pg=1", st + 500 * SEC + 1));
+        ses.step(sut, &format!("raw sender=5 now={} tip=0 tip2=0 name=no_such_message json={} pg=1", st + 500 * SEC + 1, hex::encode(b"{\"no_such_message\":{}}")));
         ses.mark(format!("{k}:scripted:full"));
+        ses.end_case();
+        // funds attached to messages that charge nothing (native, another denom, both) — on every such message
+        ses.begin_case(sut, &format!("case kind={k} uni={uni} scripted=tips{}", if literal { " literal=1" } else { "" }));
+        ses.step(sut, &inst_fee(1000, HUNDRED_STARS, "11:1", "11:1|-"));
+        let o = ses.step(sut, &format!("add sender=5 now={} tip=5 tip2=0 stage=0 members=12:1 pg=2", T0 + SEC));
+        expect(ses, &o, "ok", format!("{k}:tip:native:ok"));
+        let o = ses.step(sut, &format!("add sender=5 now={} tip=0 tip2=7 stage=0 members=13:1 pg=2", T0 + SEC));
+        expect(ses, &o, "ok", format!("{k}:tip:other:ok"));
+        ses.step(sut, &format!("add sender=7 now={} tip=9 tip2=9 stage=0 members=14:1 pg=2", T0 + SEC));
+        ses.step(sut, &format!("rm sender=5 now={} tip=3 tip2=4 stage=0 addrs=12 pg=2", T0 + SEC));
+        let o = ses.step(sut, &format!("env what=upd_admins sender=5 now={} tip=2 tip2=6 admins=5,6 pg=2", T0 + SEC));
+        expect(ses, &o, "ok", format!("{k}:tip:env:ok"));
+        expect(ses, &o, "ok", format!("{k}:ok:env"));
+        ses.step(sut, &format!("env what=freeze sender=7 now={} tip=2 tip2=6 pg=2", T0 + SEC));
+        if kind.is_tiered() {
+            let o = ses.step(sut, &format!("addstage sender=5 now={} tip=1 tip2=1 start={} end={} members=10:1,12:1 pg=2", T0 + SEC, st + 900 * SEC, st + 1000 * SEC));
+            expect(ses, &o, "ok", format!("{k}:ok:addstage"));
+            let o = ses.step(sut, &format!("rmstage sender=5 now={} tip=1 tip2=1 stage=1 pg=2", T0 + SEC));
+            expect(ses, &o, "ok", format!("{k}:ok:rmstage"));
+            let o = ses.step(sut, &format!("env what=upd_stage sender=5 now={} tip=10 tip2=0 stage=0 start=- end={} pg=2", T0 + SEC, st + 400 * SEC));
+            expect(ses, &o, "ok", format!("{k}:tip:schedule:ok"));
+        } else {
+            let o = ses.step(sut, &format!("env what=upd_end sender=5 now={} tip=10 tip2=0 t={} pg=2", T0 + SEC, en + SEC));
+            expect(ses, &o, "ok", format!("{k}:tip:schedule:ok"));
+            ses.step(sut, &format!("env what=upd_start sender=5 now={} tip=12 tip2=3 t={} pg=2", T0 + SEC, st + SEC));
+        }
+        // a fee-bearing message after the tips: the fee is still burned completely, the tips stay
+        ses.step(sut, &format!("inc sender=8 now={} funds=0:{HUNDRED_STARS} limit=1001 pg=2", T0 + SEC));
+        ses.step(sut, &format!("inc sender=8 now={} funds=0:{HUNDRED_STARS},1:5 limit=2001 pg=2", T0 + SEC));
+        ses.mark(format!("{k}:scripted:tips"));
+        ses.end_case();
+
+        // ---- sizes beyond the pagination limits: 26 and 101 members in one list / stage, 30 more, big removals
+        let buni = "100,124,125,126,199,200,201,230,231,90001";
+        ses.begin_case(sut, &format!("case kind={k} uni={buni} scripted=big"));
+        let binst = |members: &str, sm: &str, pg: u64| {
+            format!("inst sender=5 now={T0} funds=0:{HUNDRED_STARS} limit=200 whale=- admins=5 start={st} end={en} members={members} stages={stages} smembers={sm} pg={pg}")
+        };
+        let o = ses.step(sut, &binst(&range_members(100, 125, kind), &format!("{}|{}", range_members(100, 125, kind), range_members(100, 200, kind)), 25));
+        expect(ses, &o, "ok", format!("{k}:big:inst26:ok"));
+        if kind.is_tiered() {
+            expect(ses, &o, "ok", format!("{k}:big:inst101:ok"));
+        }
+        ses.step(sut, &format!("q now={} pg=1", T0 + SEC));
+        ses.step(sut, "page stage=0 after=- limit=-");
+        ses.step(sut, "page stage=0 after=- limit=1000");
+        ses.step(sut, "page stage=0 after=124 limit=-");
+        ses.step(sut, "page stage=1 after=- limit=-");
+        let o = ses.step(sut, "page stage=1 after=- limit=1000");
+        let _ = o;
+        // flat kinds: grow the single list to 101, then 131; tiered: stage 1 from 101 to 131
+        let tgt = if kind.is_tiered() { 1 } else { 0 };
+        if !kind.is_tiered() {
+            let o = ses.step(sut, &format!("add sender=5 now={} tip=0 tip2=0 stage=0 members={} pg=100", T0 + SEC, range_members(126, 200, kind)));
+            expect(ses, &o, "ok", format!("{k}:big:inst101:ok"));
+        }
+        let o = ses.step(sut, &format!("add sender=5 now={} tip=0 tip2=0 stage={tgt} members={} pg=100", T0 + SEC, range_members(201, 230, kind)));
+        expect(ses, &o, "ok", format!("{k}:big:add30:ok"));
+        let o = ses.step(sut, &format!("page stage={tgt} after=- limit=-"));
+        if primary_part(&o).matches(':').count() == 25 {
+            ses.mark(format!("{k}:big:page-default"));
+        }
+        let o = ses.step(sut, &format!("page stage={tgt} after=- limit=1000"));
+        if primary_part(&o).matches(':').count() == 100 {
+            ses.mark(format!("{k}:big:page-max"));
+        }
+        ses.step(sut, &format!("page stage={tgt} after=199 limit=100"));
+        ses.step(sut, &format!("q now={} pg=25", T0 + SEC));
+        ses.step(sut, &format!("q now={} pg=101", T0 + SEC));
+        // re-adding 131 stored members (plain kinds skip them all; whitelist-flex rejects)
+        ses.step(sut, &format!("add sender=5 now={} tip=0 tip2=0 stage={tgt} members={} pg=100", T0 + SEC, range_members(100, 230, kind)));
+        // remove 30 in one message
+        let o = ses.step(sut, &format!("rm sender=5 now={} tip=0 tip2=0 stage={tgt} addrs={} pg=26", T0 + SEC, (110..=139).map(|a| a.to_string()).collect::<Vec<_>>().join(",")));
+        expect(ses, &o, "ok", format!("{k}:big:rm30:ok"));
+        if kind.is_tiered() {
+            // a third stage with 30 members, then remove stage 1 (101 members) and everything after it
+            ses.step(sut, &format!("addstage sender=5 now={} tip=0 tip2=0 start={} end={} members={} pg=25", T0 + SEC, st + 900 * SEC, st + 1000 * SEC, range_members(150, 179, kind)));
+            let o = ses.step(sut, &format!("rmstage sender=5 now={} tip=0 tip2=0 stage=1 pg=25", T0 + SEC));
+            expect(ses, &o, "ok", format!("{k}:big:rmstage:ok"));
+            ses.step(sut, &format!("q now={} pg=7", st + SEC));
+            // the freed capacity is usable again: a new stage 1 with 101 members, same addresses
+            ses.step(sut, &format!("addstage sender=5 now={} tip=0 tip2=0 start={} end={} members={} pg=100", T0 + SEC, st + 500 * SEC, st + 900 * SEC, range_members(120, 220, kind)));
+            ses.step(sut, &format!("rmstage sender=5 now={} tip=0 tip2=0 stage=0 pg=100", T0 + SEC));
+        } else {
+            ses.step(sut, &format!("rm sender=5 now={} tip=0 tip2=0 stage=0 addrs={} pg=100", T0 + SEC, (100..=230).filter(|a| !(110..=139).contains(a)).map(|a| a.to_string()).collect::<Vec<_>>().join(",")));
+        }
+        ses.step(sut, &format!("q now={} pg=100", T0 + SEC));
+        ses.mark(format!("{k}:scripted:big"));
         ses.end_case();
     }
     ses.begin_case(sut, &format!("case kind=immutable uni={uni} scripted=immutable"));
     ses.step(sut, &format!("inst sender=5 now={T0} funds=- limit=0 whale=- admins=5 start=0 end=0 members=- stages=- smembers=~ pg=1"));
     ses.step(sut, &format!("inst sender=5 now={T0} funds=0:5 limit=0 whale=- admins=5 start=0 end=0 members=10:0 stages=- smembers=~ pg=1"));
-    ses.step(sut, &format!("inst sender=5 now={T0} funds=- limit=0 whale=- admins=5 start=0 end=0 members=12:0,10:0,12:0,90001:0,10:0 stages=- smembers=~ pg=1"));
-    ses.step(sut, &format!("add sender=5 now={T0} tip=0 stage=0 members=11:0 pg=1"));
+    ses.step(sut, &format!("inst sender=5 now={T0} funds=0:0 limit=0 whale=- admins=5 start=0 end=0 members=10:0 stages=- smembers=~ pg=1"));
+    let o = ses.step(sut, &format!("inst sender=5 now={T0} funds=- limit=0 whale=- admins=5 start=0 end=0 members=12:0,10:0,12:0,90001:0,10:0 stages=- smembers=~ pg=1"));
+    expect(ses, &o, "ok", "immutable:ok:inst".to_string());
+    ses.step(sut, &format!("add sender=5 now={T0} tip=0 tip2=0 stage=0 members=11:0 pg=1"));
     ses.step(sut, &format!("inc sender=5 now={T0} funds=- limit=10 pg=1"));
+    ses.step(sut, &format!("env what=freeze sender=5 now={T0} tip=3 tip2=0 pg=1"));
+    ses.step(sut, &format!("inst sender=5 now={T0} funds=- limit=0 whale=- admins=5 start=0 end=0 members={} stages=- smembers=~ pg=1", range_members(100, 230, Kind::Immutable)));
     ses.mark("immutable:scripted");
     ses.end_case();
 }
@@ -1364,28 +1872,28 @@ fn exhaustive(ses: &mut Session, sut: &mut S, depth: usize) {
     let en = T0 + 5_000 * SEC;
     let now = T0 + SEC;
     let mut total = 0u64;
-    for kind in [Kind::Plain, Kind::Flex, Kind::Tiered, Kind::TFlex] {
+    for kind in MUTABLE {
         let k = kind.tag();
         let inst = format!(
             "inst sender=5 now={T0} funds=0:100000000 limit=2 whale=- admins=5 start={st} end={en} members=10:1 stages={st}:{} smembers=10:1 pg=1",
             st + 500 * SEC
         );
         let mut alpha: Vec<String> = vec![
-            format!("add sender=5 now={now} tip=0 stage=0 members=10:1 pg=1"),
-            format!("add sender=5 now={now} tip=0 stage=0 members=11:1 pg=2"),
-            format!("add sender=5 now={now} tip=0 stage=0 members=12:2,10:3 pg=1"),
-            format!("add sender=5 now={now} tip=0 stage=0 members=11:1,12:1 pg=1"),
-            format!("rm sender=5 now={now} tip=0 stage=0 addrs=10 pg=1"),
-            format!("rm sender=5 now={now} tip=0 stage=0 addrs=11 pg=1"),
-            format!("rm sender=5 now={now} tip=0 stage=0 addrs=10,12 pg=1"),
+            format!("add sender=5 now={now} tip=0 tip2=0 stage=0 members=10:1 pg=1"),
+            format!("add sender=5 now={now} tip=0 tip2=0 stage=0 members=11:1 pg=2"),
+            format!("add sender=5 now={now} tip=0 tip2=0 stage=0 members=12:2,10:3 pg=1"),
+            format!("add sender=5 now={now} tip=0 tip2=0 stage=0 members=11:1,12:1 pg=1"),
+            format!("rm sender=5 now={now} tip=0 tip2=0 stage=0 addrs=10 pg=1"),
+            format!("rm sender=5 now={now} tip=0 tip2=0 stage=0 addrs=11 pg=1"),
+            format!("rm sender=5 now={now} tip=0 tip2=0 stage=0 addrs=10,12 pg=1"),
             format!("inc sender=7 now={now} funds=- limit=3 pg=1"),
         ];
         if kind.is_tiered() {
-            alpha.push(format!("addstage sender=5 now={now} tip=0 start={} end={} members=11:1,10:1,11:2 pg=1", st + 500 * SEC, st + 900 * SEC));
-            alpha.push(format!("add sender=5 now={now} tip=0 stage=1 members=12:1 pg=1"));
-            alpha.push(format!("rm sender=5 now={now} tip=0 stage=1 addrs=10 pg=1"));
-            alpha.push(format!("rmstage sender=5 now={now} tip=0 stage=1 pg=1"));
-            alpha.push(format!("rmstage sender=5 now={now} tip=0 stage=0 pg=1"));
+            alpha.push(format!("addstage sender=5 now={now} tip=0 tip2=0 start={} end={} members=11:1,10:1,11:2 pg=1", st + 500 * SEC, st + 900 * SEC));
+            alpha.push(format!("add sender=5 now={now} tip=0 tip2=0 stage=1 members=12:1 pg=1"));
+            alpha.push(format!("rm sender=5 now={now} tip=0 tip2=0 stage=1 addrs=10 pg=1"));
+            alpha.push(format!("rmstage sender=5 now={now} tip=0 tip2=0 stage=1 pg=1"));
+            alpha.push(format!("rmstage sender=5 now={now} tip=0 tip2=0 stage=0 pg=1"));
         }
         let n = alpha.len();
         let mut idx = vec![0usize; depth];
@@ -1394,7 +1902,7 @@ fn exhaustive(ses: &mut Session, sut: &mut S, depth: usize) {
             ses.step(sut, &inst);
             for (pos, i) in idx.iter().enumerate() {
                 let out = ses.step(sut, &alpha[*i]);
-                ses.mark(format!("{k}:exh:pos{pos}:op{i}:{}", out.split(' ').next().unwrap_or("?")));
+                ses.mark(format!("{k}:exh:pos{pos}:op{i}:{}", outcome(&out)));
             }
             ses.end_case();
             total += 1;
@@ -1429,21 +1937,55 @@ fn main() {
     if ses.maybe_replay(&mut sut) {
         ses.finish(&mut sut);
     }
-    scripted(&mut ses, &mut sut);
-    let depth = ses.scale(3, 4) as usize;
-    exhaustive(&mut ses, &mut sut, depth.min(4));
+    // ---- message surface, read from the crates' schemas at run time
+    let mut unknown: BTreeMap<&'static str, Vec<(String, Value)>> = BTreeMap::new();
+    for kind in [Kind::Plain, Kind::Flex, Kind::Tiered, Kind::TFlex, Kind::Immutable] {
+        let (known, unk) = surface(kind);
+        for n in &known {
+            ses.mark(format!("{}:surface:known:{n}", kind.tag()));
+        }
+        if !unk.is_empty() {
+            ses.note(format!("{}: execute variants without a harness op, sent verbatim under the monitors: {:?}", kind.krate(), unk.iter().map(|u| u.0.clone()).collect::<Vec<_>>()));
+        }
+        unknown.insert(kind.tag(), unk);
+    }
+    // ---- coverage floor: without these the run would be vacuous
+    for kind in MUTABLE {
+        let k = kind.tag();
+        for c in ["ok:inst", "ok:add", "ok:rm", "ok:inc", "ok:env", "fee:inst:exact:ok", "fee:inst:minus1:err", "fee:inst:plus1:err", "fee:inst:exact:err:gtmax",
+            "fee:inc:exact:ok:paid", "fee:inc:exact:ok:free", "fee:inc:plus1:err", "fee:inc:minus1:err", "cap:add:room:ok", "cap:add:room+1:err", "cap:add-after-inc:ok",
+            "rm:repeat-same-block:err", "tip:native:ok", "tip:other:ok", "tip:env:ok", "tip:schedule:ok", "big:inst26:ok", "big:inst101:ok", "big:add30:ok", "big:rm30:ok", "big:page-default", "big:page-max",
+            "surface:known:add_members", "surface:known:remove_members", "surface:known:increase_member_limit"] {
+            ses.require(format!("{k}:{c}"));
+        }
+        if kind.is_tiered() {
+            for c in ["ok:addstage", "ok:rmstage", "big:rmstage:ok", "surface:known:add_stage", "surface:known:remove_stage"] {
+                ses.require(format!("{k}:{c}"));
+            }
+        }
+    }
+    ses.require("immutable:ok:inst");
+    // the literal reading of "never holds funds" is a listed finding or not: the user's decision (known_findings.json)
+    let literal = load_known("C11").iter().any(|k| k.status == "finding" && k.key.ends_with("holds-funds-nonfee"));
+    scripted(&mut ses, &mut sut, literal);
+    let depth = if ses.tier() == Tier::Thorough { 4 } else { 3 };
+    exhaustive(&mut ses, &mut sut, depth);
     let mut rng = ses.rng.fork();
-    let traces = ses.scale(400, 5000);
+    let traces = ses.scale(330, 4200);
     let n_ops = ses.scale(24, 30);
     for i in 0..traces {
         for kind in [Kind::Plain, Kind::Flex, Kind::Tiered, Kind::TFlex, Kind::Immutable] {
             if kind == Kind::Immutable && i % 4 != 0 {
                 continue;
             }
-            run_trace(&mut ses, &mut sut, kind, &mut rng, n_ops);
+            let big = kind != Kind::Immutable && i % 10 == 3;
+            run_trace(&mut ses, &mut sut, kind, &mut rng, if big { n_ops.min(16) } else { n_ops }, big, &unknown[kind.tag()]);
         }
     }
-    ses.note("universe: 8 valid addresses + 1 invalid; member limits from {1..8, 999,1000,1001,1999,2000,2001,2999,3000,3001, MAX/2, MAX-1, MAX} and faults {0, MAX+1}; fees exact or single-fault (±1, none, wrong denom, two coins, ±one tier, double)");
-    ses.note("stored members are enumerated by paging `Members` with page sizes 1..4 to exhaustion AND by a raw storage dump; HasMember/StageMemberInfo/Member are asked for every universe address after every op");
+    if sut.fallbacks > 0 {
+        ses.note(format!("typed storage read failed or was empty {} times: the paged enumeration was used as the stored set there (storage layout changed?)", sut.fallbacks));
+    }
+    ses.note("probe list: 8 valid addresses + 1 invalid (small) / members 100..230 with probes around the 25th, 100th and last (big); member limits from {1..8, 999,1000,1001,1999,2000,2001,2999,3000,3001, MAX/2, MAX-1, MAX} (big: 24..27, 99..102, 131, 200, …) and faults {0, MAX+1}; fees exact or single-fault (±1, none, wrong denom, two coins, zero coin, ± one tier, double); funds on fee-less messages: ustars, another denom, both");
+    ses.note("stored members are enumerated by paging `Members` (page sizes 1..4; big: 7,24,25,26,99,100,101,1000) to exhaustion AND read from storage through the crates' typed maps; the harness keeps its own ledger of what the successful messages listed; HasMember/StageMemberInfo/AllStageMemberInfo/Member are asked for every probe address after every op");
     ses.finish(&mut sut);
 }
